@@ -12,1419 +12,501 @@ Definition show_fres (r : fres) : string :=
   end.
 Definition check (rs : list rune) : string := digest (show_fres (format_res rs)).
 Definition full (rs : list rune) : string := show_fres (format_res rs).
-Eval vm_compute in ("<<<M1276>>>" ++ check (runes_of_ascii "
-packet f32a{ @calculatedFrom(""packet""  )@tag( 00 ) @leftPad
-    // a // b
-    ('0')rootA, @tag( 65535
-    )string roots @lengthOf(	MetaDataX  )
-    `" ++ [233]%N ++ runes_of_ascii "`,@rightPad (  )
-    zchar[
-    10 ]matchKey // @lengthOf(
-@lengthOf( float )// packet A { u8 x, }
-,
-@rightPad
-    ( )roots MetaDataX
-, u128 , // c
-match
-// `tick` ""quote"" 'q'
-// " ++ [128512]%N ++ runes_of_ascii " emoji
-len as	BodyLength {	""" ++ [128512]%N ++ runes_of_ascii """ :
-    float,[ 4294967296 ,// a // b
-00,
-    0123456789
-, ""`tick`"" ,""it's"", ""\n"", 65535 , 7 ] ://	t
-calculatedFrom ,
-[ ""packet""  , 007//
-, ""\" ++ [233]%N ++ runes_of_ascii """
-]
-: _x	[
-""" ++ [128512]%N ++ runes_of_ascii """ ,""a\""b""//	t
-, 0123456789 ] // c
-: // @lengthOf(
-_x ,65535 : As 255 : stringy	,
-}	, calculatedFrom// @lengthOf(
-{ char[]
-    matchKey
-    @calculatedFrom( """ ++ [128512]%N ++ runes_of_ascii """ // c
-) , u32
-    u8x @lengthOf( i8i8
-    ), f32a // c
-options1
-    `line1
-line2`
-, float64	rootA // " ++ [27880; 37322]%N ++ runes_of_ascii "
-,
-//	t
-//	t
-}, @tag( 0 ) @lengthOf( Z9_
-) T Foo `" ++ [233]%N ++ runes_of_ascii "` ,match T	as
-Packet { 3 : u8x
-    , 4294967296 //x
-: matchKey,
-    """ ++ [233]%N ++ runes_of_ascii "t" ++ [233]%N ++ runes_of_ascii """
-: Foo// @lengthOf(
-, ""a\""b"":
-repeatCount
-    , 7 : stringy  , }// trailing space 
-, @leftPad( //
-'\x00'	)repeat
-    pack ,  } packet x { @lengthOf(// packet A { u8 x, }
-falsey )repeat int32 a1 // " ++ [27880; 37322]%N ++ runes_of_ascii "
-,
-    @leftPad(
-    ) repeat f32a,  match	Foo as// packet A { u8 x, }
-calculatedFrom
-    {""x y"" : calculatedFrom 7 : len , ""abc""
-    :  charz
-,
-}  , uint8x
-,
-@lengthOf(	o ) // " ++ [27880; 37322]%N ++ runes_of_ascii "
-repeat
-string_  {zchar[ 7] Packet
-@calculatedFrom( // trailing space 
-""x y"") ,repeat
-    string charz , float64 _x @calculatedFrom( ""1""
-    ),}
-    // `tick` ""quote"" 'q'
-    , crc,char[ 65535 ] metadata @calculatedFrom( ""\n"" ) `" ++ [28040; 24687; 31867; 22411]%N ++ runes_of_ascii "` ,
-repeat uint64 msg_type
-//x
-//x
-`{ , }` ,char[
-1] charz
-    ,@rightPad ( '\x00')
-    repeat i32 o // `tick` ""quote"" 'q'
-`crlf
-line`, }
-MetaData i8i8
-{rootA packetx `doc` ,  x As , }//
-root packet u128
-// @lengthOf(
-// @lengthOf(
-{ } packet falsey { u @lengthOf( i8i8
-),@lengthOf(
-u )f32
-    //	t
-    Header , @calculatedFrom( ""`tick`""  )
-stringy
-@calculatedFrom( """ ++ [233]%N ++ runes_of_ascii "t" ++ [233]%N ++ runes_of_ascii """
-    ) `two words` , char[ 65535 ]string_ @lengthOf(lengthOf
-    ), Pad u128 , Packet
-    `
-`
-,// `tick` ""quote"" 'q'
-@calculatedFrom( ""abc""// trailing space 
-) char[
-00
-]
-roots`line1
-line2`
-, @tag(// trailing space 
-7 )char[]trueish @calculatedFrom( ""\n"")
-    , @calculatedFrom( ""packet""
-    ) @lengthOf( As ) char[ 3 ] // a // b
-charz @lengthOf(options1 ) , u32 _x @calculatedFrom( ""a\\"" )`u8 x,` ,}
-")).
-Eval vm_compute in ("<<<M3637>>>" ++ check (runes_of_ascii "// top
-options // c0
-{ LittleEndian // c2a
-  // c2b
-= false // c4
-;
-    // c5
-StringPrefixLenType // c6a
-  // c6b
-= u8 // c8a
-  // c8b
-; // c9
-ArrayPrefixLenType
-    // c10
-= // c11
-u8 ; // c13a
-  // c13b
-FixedStringPadFromLeft // c14
-= true
-    // c16
-;
-    // c17
-FixedStringPadChar
-    // c18
-= // c19
-' ' ;
-    // c21
-} // c22a
-  // c22b
-packet // c23a
-  // c23b
-Trade { zchar[ 2 // c27a
-  // c27b
-] Side2 , // c30a
-  // c30b
-i8
-    // c31
-seqNo , } // c34a
-  // c34b
-packet
-    // c35
-Party { // c37a
-  // c37b
-uint32
-    // c38
-price
-    // c39
-,
-    // c40
-}
-    // c41
-packet // c42
-Ack // c43
-{ @rightPad
-    // c45
-( '\x00' // c47a
-  // c47b
-) char[
-    // c49
-6 // c50
-] // c51
-x , // c53a
-  // c53b
-repeat
-    // c54
-char[ // c55
-4 ]
-    // c57
-Flags // c58
-, // c59
-zchar[
-    // c60
-9 // c61a
-  // c61b
-]
-    // c62
-f1 , // c64a
-  // c64b
-} // c65a
-  // c65b
-packet
-    // c66
-Cancel
-    // c67
-{ // c68a
-  // c68b
-Ack , // c70a
-  // c70b
-} // c71a
-  // c71b
-packet // c72a
-  // c72b
-Heartbeat // c73a
-  // c73b
-{ // c74
-string
-    // c75
-Px , string // c78a
-  // c78b
-Acct // c79a
-  // c79b
-, // c80
-f64
-    // c81
-Side2 // c82a
-  // c82b
-, // c83a
-  // c83b
-InQty24 // c84a
-  // c84b
-{ i16 // c86a
-  // c86b
-seqNo , repeat i32
-    // c90
-Flags
-    // c91
-, } , } // c95a
-  // c95b
-root packet Logon {
-    // c99
-Trade
-    // c100
-,
-    // c101
-i64 // c102
-venue // c103
-, // c104a
-  // c104b
-u32 // c105
-x
-    // c106
-,
-    // c107
-u8 // c108a
-  // c108b
-seqNo // c109a
-  // c109b
-,
-    // c110
-match seqNo
-    // c112
-as // c113a
-  // c113b
-Body
-    // c114
-{ // c115a
-  // c115b
-[ 1 // c117a
-  // c117b
-, // c118a
-  // c118b
-164 // c119a
-  // c119b
-] :
-    // c121
-Ack // c122a
-  // c122b
-,
-    // c123
-31 :
-    // c125
-Cancel // c126a
-  // c126b
-,
-    // c127
-23
-    // c128
-: // c129a
-  // c129b
-Heartbeat ,
-    // c131
-64 : // c133a
-  // c133b
-Party , // c135
-} ,
-    // c137
-} // c138
-")).
-Eval vm_compute in ("<<<M320>>>" ++ check (runes_of_ascii "options { lengthOf =
-""CRC32"" ; stringy = uint16;  u8x =float32 ; x_y_z
-    // c
-    =  zchar[ 007]
-repeatCount  = ""a\""b"" ;
-// c
-//	t
-}
-MetaData trueish { As roots `" ++ [28040; 24687; 31867; 22411]%N ++ runes_of_ascii "`
-, char[ 00 ] Packet// c
-, } root
-packet roots
-{ int8 Logon, body@lengthOf( lengthOf
-) `
-` , @rightPad (	'0' )
-    Packet@calculatedFrom(""x y""
-)`a\` ,
-@lengthOf( T ) match matchKey as _x// trailing space 
-{ """ ++ [128512]%N ++ runes_of_ascii """	:
-stringy ,
-4294967296:  x_y_z ,""\n""
-: leftPad[
-42 , 42
-    , ""it's"" , ""\n"" ,""// no comment""	] : asx ,} , char[
-    10// trailing space 
-]BodyLength ,
-@leftPad (	'0'
-) char[]
-    /// triple
-    Z9_ `crlf
-line`, string falsey
-    , int16 // c
-asx  @calculatedFrom( ""x y"" ) ,u128 Z9_ `it's` ,
-    @rightPad
-// " ++ [128512]%N ++ runes_of_ascii " emoji
-// @lengthOf(
-( '0'
-)Packet {
-    // " ++ [128512]%N ++ runes_of_ascii " emoji
-    int64
-    float ,
-repeat leftPad{
-repeat
-Z9_ {
-    match T
-as lengthOf{ ""`tick`"" :msg_type""1"" : x_y_z , 0 : chars , } ,
-    } , repeat trueish
-    { zchar[
-255 ]
-crc	`doc` , char Logon @lengthOf( _x
-    // " ++ [128512]%N ++ runes_of_ascii " emoji
-    )
-,
-    //
-    a1 `doc`,
-//x
-//	t
-} , match msg_type as zchar { ""it's"" // c
-:
-/// triple
-// packet A { u8 x, }
-body
-, """ ++ [28040; 24687]%N ++ runes_of_ascii """ : // `tick` ""quote"" 'q'
-u,} ,} , } ,
-}
-packet// `tick` ""quote"" 'q'
-As// " ++ [27880; 37322]%N ++ runes_of_ascii "
-{
-@leftPad (
-    // c
-    '\x00' ) @tag( 255
-    )
-    @lengthOf( // `tick` ""quote"" 'q'
-o
-)zchar[ 42 ] string_ @calculatedFrom(
-""a\""b""	)`" ++ [28040; 24687; 31867; 22411]%N ++ runes_of_ascii "`
-, char[] repeatCount//	t
-@lengthOf(
-calculatedFrom) ,metadata @calculatedFrom(
-    ""abc""
-) `two words`
-    ,
-// `tick` ""quote"" 'q'
-// c
-@lengthOf(matchKey ) match
-packetx as falsey { 007
-: A,""1"" : packetx , //
-7 :charz
-, [ 65535 ]:stringy 65535
-    :a1 [  ""a	b""
-, 1] :
-    Logon
-// a // b
-// " ++ [128512]%N ++ runes_of_ascii " emoji
-}, }")).
-Eval vm_compute in ("<<<M1217>>>" ++ check (runes_of_ascii "packet //x
-u8x
-{ //x
-@tag( 10 )
-    char[7]
-    // trailing space 
-    MetaDataX	, match // c
-Z9_ as Header{""a\\"" :
-    stringy
-, ""// no comment"" : u128 // trailing space 
-, 0123456789
-    :
-matchKey,10	: BodyLength // packet A { u8 x, }
-,	65535: asx
-    // trailing space 
-    , 00 : pack//
-,	}  , @tag(
-255)msg_type `it's` , @lengthOf(
-A ) leftPad
-@lengthOf( Header) `crlf
-line`, @calculatedFrom( ""1""
-//x
-/// triple
-) repeat
-int8 o
-    // " ++ [128512]%N ++ runes_of_ascii " emoji
-    ,  @rightPad(
-'\x00')	string
-pack
-    @calculatedFrom(  ""// no comment""), @lengthOf( Z9_) match	u128
-//	t
-//	t
-as BodyLength { //
-[""\n"" ,
-""a\\"" ]
-: Logon
-,	0 : As , } ,char[] x ,} packet  Packet {
-    @calculatedFrom(""// no comment"" ) x_y_z,
-    @leftPad(
-) zchar[ 65535 ] As
-    @calculatedFrom(
-""1""
-    // " ++ [128512]%N ++ runes_of_ascii " emoji
-    ) `tab	here`  ,  zchar[ 10 ]	f32a ,	@tag(7  ) char[0123456789 ]
-    matchKey
-`say ""hi""`
-    ,
-} root packet string_
-{ // " ++ [27880; 37322]%N ++ runes_of_ascii "
-@tag( // @lengthOf(
-0
-// c
-//	t
-)	asx
-// trailing space 
-// c
-`// not a comment`
-// packet A { u8 x, }
-//
-, zchar[ 65535
-] Header,
-    @tag( 10 ) repeat zchar trueish
-, repeat string // packet A { u8 x, }
-Packet `{ , }`, char[] len
-, lengthOf len `` , packetx @lengthOf(
-    // `tick` ""quote"" 'q'
-    float)`a\`	, @calculatedFrom(
-""" ++ [28040; 24687]%N ++ runes_of_ascii """ ) matchKey  @calculatedFrom( """ ++ [233]%N ++ runes_of_ascii "t" ++ [233]%N ++ runes_of_ascii """ ), @rightPad ( ' '
-// " ++ [128512]%N ++ runes_of_ascii " emoji
-// " ++ [27880; 37322]%N ++ runes_of_ascii "
-)
-// @lengthOf(
-// c
-options1 @calculatedFrom( """ ++ [28040; 24687]%N ++ runes_of_ascii """) , } MetaData Header
-    {
-    Logon  string_ , }
-")).
-Eval vm_compute in ("<<<M266>>>" ++ check (runes_of_ascii "packet asx { Logon{ body
-@calculatedFrom( // trailing space 
-""it's"" ) , // @lengthOf(
-char[ 3] MetaDataX , string
-    leftPad `crlf
-line` , u128@calculatedFrom( ""packet""
-    ),} , } //x
-packet
-x_y_z
-    // packet A { u8 x, }
-    { len {
-    match leftPad// c
-as
-rootA {[007 // trailing space 
-, ""a\\"" , 0123456789,
-    ""\" ++ [233]%N ++ runes_of_ascii """ , ""`tick`"" , ""{,}""
-    ] : falsey , 4294967296:	matchKey
-, // packet A { u8 x, }
-}
-    , int32 //	t
-Z9_ // " ++ [27880; 37322]%N ++ runes_of_ascii "
-,a1
-{
-    x_y_z ,
-    repeat	_x `doc` , char[]falsey
-    @lengthOf(u128) `doc` ,
-    }/// triple
-,match Foo as
-stringy {7 : asx // " ++ [128512]%N ++ runes_of_ascii " emoji
-, ""x y""	:
-    calculatedFrom
-, }
-    , }, @lengthOf(i64_ ) @rightPad ( /// triple
-'\x00'// @lengthOf(
-)@tag( 42 )  char[]
-repeatCount ,
-match	Z9_ //x
-as  int {[//x
-""a	b"" ,	""abc""
-    , 255 , 7 // " ++ [128512]%N ++ runes_of_ascii " emoji
-] :asx
-""1"" : chars , [ ""a	b"", 00 ,4294967296 ] :
-leftPad , [
-65535
-, //x
-0 , //	t
-""abc"" // a // b
-, ""it's"", 007 ,
-    ""x y"" ,
-    255,3 ]  :
-leftPad
-    , [
-    //x
-    4294967296]: u
-,
-// " ++ [128512]%N ++ runes_of_ascii " emoji
-// " ++ [128512]%N ++ runes_of_ascii " emoji
-0123456789 :a1  } ,
-x_y_z  u8x ,  asx{ repeat
-Header float `crlf
-line`
-    , rootA
-charz// " ++ [128512]%N ++ runes_of_ascii " emoji
-`a\` , } , @calculatedFrom(""CRC32"" ) string string_
-,  @tag(
-65535 )  @rightPad ( '\x00' ) u8x	a1 `{ , }` , } options { // c
-float = // " ++ [27880; 37322]%N ++ runes_of_ascii "
-007 }
-root // c
-packet
-metadata {
-}
-")).
-Eval vm_compute in ("<<<M3927>>>" ++ check (runes_of_ascii "packet falsey {
-    int64 BodyLength,
-    @tag(4294967296)
-    // packet A { u8 x, }
-    @leftPad()
-    match _x as Foo {
-        ""\n"" : asx,
-        // `tick` ""quote"" 'q'
-        // `tick` ""quote"" 'q'
-        [
-            ""{,}"", 4294967296, """ ++ [128512]%N ++ runes_of_ascii """, """ ++ [28040; 24687]%N ++ runes_of_ascii """, ""packet"",
-            ""packet"", ""x y"", 7
-        ] : x_y_z,
-    },// `tick` ""quote"" 'q'
-    A len `// not a comment`,
-    //
-    repeat char[] i64_ `crlf
-        line`,
-    // trailing space 
-    // trailing space 
-    repeat char[] u `line1
-        line2`,
-    tag {
-        string metadata,
-    },
-    // " ++ [27880; 37322]%N ++ runes_of_ascii "
-    // " ++ [128512]%N ++ runes_of_ascii " emoji
-    char[3] falsey @lengthOf(leftPad) `crlf
-        line`,
-}
-
-root packet MetaDataX {
-    @lengthOf(u8x)
-    match f32a as Header {
-        [""a\""b"", 255] : u8x,
-        ""packet"" : uint8x,
-        ""1"" : _x,
-    },
-    Packet `doc`,
-    zchar[3] u128 @lengthOf(asx),
-}
-
-MetaData x {
-    // `tick` ""quote"" 'q'
-    // `tick` ""quote"" 'q'
-    As roots,
-    char[10] crc `{ , }`,
-    BodyLength asx `u8 x,`,
-    matchKey i8i8,
-    falsey pack `" ++ [233]%N ++ runes_of_ascii "`,
-    leftPad metadata,
-}
-
-options {
-    pack = 0
-    tag = f32
-    i64_ = ""abc"";
-    // " ++ [128512]%N ++ runes_of_ascii " emoji
-    // " ++ [128512]%N ++ runes_of_ascii " emoji
-    f32a = true;
-}
-
-packet Foo {
-}")).
-Eval vm_compute in ("<<<M4055>>>" ++ check (runes_of_ascii "
-MetaData lengthOf{
-
-    i64 u128 
-	    // trailing space 
-  , uint32 // trailing space 
-      calculatedFrom ,
-char[	00
-]	string_,
-    }
-root	packet
-
-    falsey
-    { char[]	// " ++ [128512]%N ++ runes_of_ascii " emoji
-  len	`line1
-line2`
-, @tag(
-    255  ) uint8x
-
-@lengthOf(
-
-falsey
-),float32 	 // `tick` ""quote"" 'q'
-    len	,
-
-repeat calculatedFrom
-i64_ `say ""hi""` ,
-
-    // c
-
-@rightPad 
-( 
-    // " ++ [27880; 37322]%N ++ runes_of_ascii "
-'0')
-char[
-    10
-
-]  Logon
-
-,
-}	packet rootA  // c
-{ 
-	// " ++ [128512]%N ++ runes_of_ascii " emoji
-
-	// a // b
-x{
-falsey 
-Logon,
-	trueish @calculatedFrom(
-    ""`tick`"" ) `// not a comment`
-,
-uint8x  body
-,
-    } 
-,
-	@calculatedFrom(	""{,}""
-)@calculatedFrom(	""a\\"" )
-
-match//x
-	  f32a
-
-as i8i8  {// " ++ [27880; 37322]%N ++ runes_of_ascii "
-
-	10	: matchKey	,  1
-	:	packetx
-	,  0123456789
-	:
-Header,
-""it's""  :i64_ ,  // packet A { u8 x, }
-
-0 :
-
-pack
-,  },	repeat uint8x
-
-    x_y_z `" ++ [28040; 24687; 31867; 22411]%N ++ runes_of_ascii "`
-,repeat char[  255  ]
-string_
-,
-
-@lengthOf(
-int
-    )
-	calculatedFrom
-	,
-@tag(
-
-    4294967296 )
-
-    u16  packetx 
-@calculatedFrom( """ ++ [28040; 24687]%N ++ runes_of_ascii """)  , 
-u128
-	body
-`doc`	,	}root
-packet tag
-{ 
-    //x
-// `tick` ""quote"" 'q'
-      i32
-A 
-	// @lengthOf(
-
-// packet A { u8 x, }
-,
-
-}
-options	{	}")).
-Eval vm_compute in ("<<<M569>>>" ++ check (runes_of_ascii "root packet//	t
-string_
-{ @lengthOf(
-    // trailing space 
-    matchKey
-    ) repeat string_ matchKey , char[
-007 ] i64_
-    @calculatedFrom(""packet"" ),
-@tag(
-255)
-stringy
-    len
-, @leftPad (
-    '\x00')  i8 matchKey
-, match options1 as As {0123456789 : x
-    , 10 : u8x ,[4294967296 // `tick` ""quote"" 'q'
-] :rootA ,
-65535 : charz ,
-3	:
-int} , } root packet u8x
-{ int16  x_y_z,// trailing space 
-@calculatedFrom(/// triple
-""abc"" // trailing space 
-) @leftPad (
-' ' ) @tag(  3 ) match Packet  as leftPad /// triple
-{ ""// no comment"" : float	,} , repeat
-    string_ Packet , string zchar
-,
-    /// triple
-    Packet `
-` ,  float {int8 rootA @lengthOf(
-    // packet A { u8 x, }
-    x_y_z
-    ) ,
-    // " ++ [128512]%N ++ runes_of_ascii " emoji
-    }, Header @lengthOf( stringy
-    //	t
-    )
-,
-    // @lengthOf(
-    string /// triple
-Logon @calculatedFrom(""// no comment"" ), }MetaData
-// @lengthOf(
-// `tick` ""quote"" 'q'
-options1 {Foo stringy `" ++ [28040; 24687; 31867; 22411]%N ++ runes_of_ascii "` , Packet i64_ `a\`
-, char[
-4294967296 ] lengthOf , char[]
-_x , i64 Packet , zchar[
-    255] x
-, }
-")).
-Eval vm_compute in ("<<<M529>>>" ++ check (runes_of_ascii "packet rootA { metadata { int32
-    body  `doc` ,repeat calculatedFrom u8x
-,u32 float , },
-@lengthOf(
-// @lengthOf(
-// trailing space 
-T )u8x Header,	repeat u16 Z9_ ,
-@leftPad (
-    '0'	)
-repeat Z9_ { stringy msg_type
-    `
-` ,As
-{match i8i8
-    as	chars {
-10 :len
-    ,
-    [ ""abc"", 42
-//	t
-// c
-, 7 ] :  leftPad ,42 : lengthOf , 00 : zchar ,
-    //x
-    } , i32
-    i64_ // @lengthOf(
-, repeat
-lengthOf msg_type`` //x
-,
-    }	,
-    int16 Packet @calculatedFrom( ""packet"") ,} , len @lengthOf( float
-    //
-    ) `two words`,
-@calculatedFrom( //	t
-""a\""b"" ) repeat
-pack
-,
-    @tag( 0 ) float32 tag `tab	here` ,rootA @calculatedFrom(""// no comment""
-) ,
-@lengthOf(x_y_z	)
-msg_type { match crc
-    as
-string_ { 0:	u8x , 10
-    : // " ++ [27880; 37322]%N ++ runes_of_ascii "
-crc	, ""x y"" : Pad
-    , 3: a1	,007
-    : x , [ """" ] : A },
-} , @calculatedFrom(
-    ""CRC32"" ) @rightPad (' ')
-    @tag( 10	) match zchar
-    as body {
-65535 // trailing space 
-:
-    // packet A { u8 x, }
-    tag
-    } ,
-}
-")).
-Eval vm_compute in ("<<<M3605>>>" ++ check (runes_of_ascii "// top
-packet // c0a
-  // c0b
-P1 // c1
-{ u8 a // c4
-, // c5a
-  // c5b
-} packet // c7a
-  // c7b
-P2 // c8a
-  // c8b
-{ // c9
-P1 // c10
-, // c11a
-  // c11b
-}
-    // c12
-packet
-    // c13
-P3 // c14a
-  // c14b
-{ // c15
-P2 // c16a
-  // c16b
-,
-    // c17
-P1
-    // c18
-, // c19
-} // c20a
-  // c20b
-packet // c21a
-  // c21b
-P4 {
-    // c23
-repeat // c24a
-  // c24b
-P3
-    // c25
-,
-    // c26
-P2 // c27
-,
-    // c28
-}
-    // c29
-root
-    // c30
-packet // c31a
-  // c31b
-P5 // c32
-{ // c33a
-  // c33b
-P4 // c34a
-  // c34b
-, // c35a
-  // c35b
-P3 // c36
-, // c37
-P1 // c38
-, // c39
-u8 // c40
-K , match // c43a
-  // c43b
-K // c44a
-  // c44b
-as
-    // c45
-Body // c46a
-  // c46b
-{ // c47a
-  // c47b
-4
-    // c48
-: // c49
-P4 // c50
-, // c51a
-  // c51b
-3 // c52a
-  // c52b
-: // c53a
-  // c53b
-P3 // c54a
-  // c54b
-, // c55a
-  // c55b
-2
-    // c56
-:
-    // c57
-P2 // c58
-, 1
-    // c60
-: // c61
-P1
-    // c62
-, // c63
-} , }
-    // c66
-")).
-Eval vm_compute in ("<<<M492>>>" ++ check (runes_of_ascii "packet roots { } root packet metadata{ repeat //	t
-float32 int ,	_x @lengthOf(
-    packetx //
-) `
-` , repeat Packet Header
-, @tag( 0 // trailing space 
-)/// triple
-float32 msg_type
-    @calculatedFrom(
-""\" ++ [233]%N ++ runes_of_ascii """// a // b
-)  , char[
-0 ] BodyLength , len
-@calculatedFrom(	""" ++ [28040; 24687]%N ++ runes_of_ascii """ ) // trailing space 
-`tab	here` ,	}
-root packet calculatedFrom
-{ @rightPad ( ' '
-)
-    tag
-@calculatedFrom(""// no comment"")
-    // " ++ [27880; 37322]%N ++ runes_of_ascii "
-    , crc @calculatedFrom(""\" ++ [233]%N ++ runes_of_ascii """ ), @lengthOf( u128
-// a // b
-//x
-) @lengthOf(
-chars)
-repeat
-    lengthOf`tab	here` // a // b
-, @tag( 007)
-    char[]
-    roots , @calculatedFrom(""" ++ [233]%N ++ runes_of_ascii "t" ++ [233]%N ++ runes_of_ascii """ ) repeat zchar[ 0 ] chars `crlf
-line`  , // `tick` ""quote"" 'q'
-@calculatedFrom(""a\\"" )	options1 ,
-    // " ++ [27880; 37322]%N ++ runes_of_ascii "
-    @rightPad ( // " ++ [27880; 37322]%N ++ runes_of_ascii "
-)
-    Z9_ { float32 x_y_z @lengthOf( asx // @lengthOf(
-)
-    , repeat float32 asx , f32 zchar
-`" ++ [28040; 24687; 31867; 22411]%N ++ runes_of_ascii "`
-    , char[ 007 ] Packet
-`a\`
-,
-} ,
-}")).
-Eval vm_compute in ("<<<M421>>>" ++ check (runes_of_ascii "// @lengthOf(
-MetaData Pad
-    { }
-MetaData
-msg_type { // packet A { u8 x, }
-packetx i64_ , char[ 1 ] Foo
-`" ++ [233]%N ++ runes_of_ascii "`	, } MetaData o  { }
-    // `tick` ""quote"" 'q'
-    options //x
-{ MetaDataX =u32 ;
-// @lengthOf(
-//x
-trueish
-    //	t
-    ='0'	options1 = 65535 ; Pad ='0'
-; x_y_z =
-    //x
-    ""a\""b""
-    } packet chars
-// trailing space 
-//	t
-{ @calculatedFrom(
-    ""a\\"" ) //	t
-match
-//x
-// trailing space 
-charz as  Foo { [4294967296 ,
-    ""CRC32"" ,
-// @lengthOf(
-// c
-3
-, ""a\""b""
-,
-    // a // b
-    ""CRC32""] :
-// trailing space 
-// c
-i8i8
-,
-} , @calculatedFrom(""" ++ [233]%N ++ runes_of_ascii "t" ++ [233]%N ++ runes_of_ascii """
-) char[] chars @calculatedFrom(""// no comment"" ) , char[]
-    x_y_z//
-,
-@lengthOf(
-trueish
-) @lengthOf( packetx) @lengthOf( packetx  ) Logon
-    @calculatedFrom( ""it's""	)
-, string
-_x  , uint32 packetx ,
-    repeat MetaDataX`tab	here`
-    ,
-}
-")).
-Eval vm_compute in ("<<<M1212>>>" ++ check (runes_of_ascii "/// triple
-packet matchKey {// `tick` ""quote"" 'q'
-repeatCount
-`line1
-line2` , @calculatedFrom(
-""1"")
-u128 @calculatedFrom(
-    ""\" ++ [233]%N ++ runes_of_ascii """ ) , // @lengthOf(
-@calculatedFrom( ""abc""	)repeat int
-uint8x , Packet  @lengthOf(trueish ) , @tag( 3 // `tick` ""quote"" 'q'
-) rootA
-    @lengthOf(asx ) `it's`
-,repeat tag // " ++ [128512]%N ++ runes_of_ascii " emoji
-body ,
-    @lengthOf( //	t
-_x )	@calculatedFrom( ""1""
-) @leftPad ( '0'
-    )
-    i8 i64_	@calculatedFrom( ""a\""b"" ) ,}packet x_y_z {
-@tag(  7) match// @lengthOf(
-Z9_  as i64_	{ """"
-: roots , ""`tick`""
-    :
-T,007: zchar , [ // packet A { u8 x, }
-4294967296 ,	7,4294967296 ,
-4294967296 ,""\" ++ [233]%N ++ runes_of_ascii """, // " ++ [27880; 37322]%N ++ runes_of_ascii "
-10 ,255 ]	: pack
-// packet A { u8 x, }
-//
-, 1 : asx
-,""CRC32"" :
-x_y_z } , // a // b
-} options
-    { // c
-}
-root //
-packet packetx{i8i8 @lengthOf( u128 ) , }")).
-Eval vm_compute in ("<<<M511>>>" ++ check (runes_of_ascii "
-MetaData BodyLength { // trailing space 
-zchar[ 10
-]trueish, }
-packet f32a
-    {@calculatedFrom(
-    ""a\\"" ) @tag( 3
-    )
-@leftPad ( '\x00'	)
-u128 { match u8x
-    as len
-    { [
-"""",
-0 ]
-: chars
-, 7
-    :rootA
-,}, // " ++ [128512]%N ++ runes_of_ascii " emoji
-match zchar as matchKey { 00 :
-repeatCount //	t
-,""a	b"":Logon ,
-[ """ ++ [233]%N ++ runes_of_ascii "t" ++ [233]%N ++ runes_of_ascii """
-, 00 ]:packetx} ,
-i64 tag,	}
-, @leftPad
-    ( '\x00'
-) char[] u128 `// not a comment` ,
-    float64 lengthOf @lengthOf( // " ++ [27880; 37322]%N ++ runes_of_ascii "
-charz ) , @leftPad
-(
-    '\x00'
-)As uint8x `crlf
-line`, }packet	uint8x { char[
-    255 ] calculatedFrom
-    , roots @lengthOf( a1
-) `tab	here`
-    // trailing space 
-    ,
-//
-/// triple
-@rightPad
-    (' ' )  repeat a1 a1, char
-crc , i16 a1 , } //x
-packet len{ //
-zchar a1 // trailing space 
-`u8 x,`,	}")).
-Eval vm_compute in ("<<<M3636>>>" ++ check (runes_of_ascii "options {
-    LittleEndian = false;
-    StringPrefixLenType = u8;
-    ArrayPrefixLenType = u8;
+Eval vm_compute in ("<<<M1575>>>" ++ check (runes_of_ascii "options {
+    ArrayPrefixLenType = u16;
     FixedStringPadFromLeft = true;
+    JavaPackage = ""co\
+m.example.msg"";
+    GoPackage = ""ms\
+g"";
+    GoModule = ""example.com/msg"";
+}
+MetaData Meta {
+    u32 SeqNum `sequence number`,
+    char[8] Symbol `symbol`,
+    zchar[5] ZSym `z symbol`,
+    string Note,
+    Symbol AltSymbol `alias of symbol`,
+    f64 Price,
+}
+packet Inner {
+    u8 a,
+    i16 b,
+    string c,
+}
+packet Inner2 {
+    u8 a2,
+    char[3] c2,
+}
+packet Logon {
+    u8 x,
+    string user,
+    repeat u16 codes,
+}
+packet Logout {
+    u16 reason,
+}
+packet Empty {
+}
+root packet Msg {
+    u8 su8,
+    uint8 luint8,
+    u16 su16,
+    uint16 luint16,
+    u32 su32,
+    uint32 luint32,
+    u64 su64,
+    uint64 luint64,
+    i8 si8,
+    int8 lint8,
+    i16 si16,
+    int16 lint16,
+    i32 si32,
+    int32 lint32,
+    i64 si64,
+    int64 lint64,
+    f32 sf32,
+    float32 lfloat32,
+    f64 sf64,
+    float64 lfloat64,
+    char[6] fsplain,
+    @leftPad('0') char[4] fs0,
+    @rightPad('0') char[5] fs1,
+    @leftPad(' ') char[6] fs2,
+    @rightPad(' ') char[7] fs3,
+    @leftPad('\x00') char[8] fs4,
+    @rightPad('\x00') char[9] fs5,
+    @leftPad() char[10] fs6,
+    @rightPad() char[11] fs7,
+    zchar[7] fz,
+    @leftPad('0') zchar[3] fzl0,
+    string s1 `doc`,
+    char[] s2,
+    Inner,
+    Sub {
+        u8 q,
+        string w,
+        Deep {
+            u16 z,
+            repeat i32 zs,
+        },
+    },
+    repeat u8 ru8,
+    repeat u16 ru16,
+    repeat u32 ru32,
+    repeat u64 ru64,
+    repeat i8 ri8,
+    repeat i16 ri16,
+    repeat i32 ri32,
+    repeat i64 ri64,
+    repeat f32 rf32,
+    repeat f64 rf64,
+    repeat string rstr,
+    repeat char[] rstr2,
+    repeat char[3] rfs,
+    repeat zchar[3] rfz,
+    repeat Inner2,
+    repeat Grp {
+        u8 k,
+        char[2] v,
+    },
+    SeqNum,
+    SeqNum seq2,
+    repeat SeqNum seqs,
+    Symbol,
+    AltSymbol alt,
+    ZSym,
+    Note,
+    repeat Symbol syms,
+    Price px,
+    u16 MsgType,
+    u32 BodyLen @lengthOf(Body),
+    match MsgType as Body {
+        1 : Logon,
+        [2, 3] : Logout,
+        7 : Logon,
+        9 : Empty,
+    },
+    u32 Checksum @calculatedFrom(""CRC32""),
+}
+")).
+Eval vm_compute in ("<<<M120>>>" ++ check (runes_of_ascii "root packet // c
+falsey { roots { repeat x_y_z ,
+} , char[] T `
+` , char[	3 ]T/// triple
+,zchar { repeat
+zchar[ 65535 ]
+    rootA  `tab	here`
+    , int32 leftPad , }
+,
+// packet A { u8 x, }
+// `tick` ""quote"" 'q'
+repeat
+    Packet
+    //	t
+    ,repeat
+char[ 00 ] body`" ++ [233]%N ++ runes_of_ascii "` , @tag(
+00// @lengthOf(
+) a1 i64_
+, i8i8 BodyLength `{ , }`
+    , match
+    crc as u8x
+// a // b
+//	t
+{ [
+    // `tick` ""quote"" 'q'
+    0 ]:
+    matchKey , [ 0123456789,
+""a\\""
+,
+""abc"" ]:As , """ ++ [128512]%N ++ runes_of_ascii """ : tag, 7 :
+    u8x , 42 : f32a 00 :options1 } // trailing space 
+,} packet// " ++ [27880; 37322]%N ++ runes_of_ascii "
+MetaDataX{@tag( 42)@leftPad ( ) @leftPad
+    //x
+    ( )  body i64_ , } packet int{ @calculatedFrom(
+// " ++ [27880; 37322]%N ++ runes_of_ascii "
+//
+""" ++ [233]%N ++ runes_of_ascii "t" ++ [233]%N ++ runes_of_ascii """)
+@tag(42 ) @leftPad	( '\x00' ) repeat u8x ,  repeat len , @tag(	255	)match calculatedFrom as Z9_ {  ""CRC32"" :	len,""packet"" : falsey, [65535,
+42//x
+]// @lengthOf(
+: charz ,
+} // @lengthOf(
+,i8i8 ,match
+i8i8
+    as Foo // trailing space 
+{ ""a\\"" : x , } , @leftPad
+( ) char crc `say ""hi""` ,
+} options {	Pad =
+    zchar[ // trailing space 
+0
+]; pack="""" // c
+;
+    } root
+    packet lengthOf
+{ @leftPad ('0' ) A
+    // trailing space 
+    @calculatedFrom(
+// " ++ [27880; 37322]%N ++ runes_of_ascii "
+//
+""\" ++ [233]%N ++ runes_of_ascii """),@calculatedFrom( ""abc""// c
+)  repeat// c
+char[] a1 ,repeat int  trueish  , @rightPad(
+    '\x00'
+    )// a // b
+zchar[4294967296 ] _x ,repeat
+stringy //
+x	,@tag( 00  ) @lengthOf( int )  @tag( 0) u8	T	,
+@tag(1 ) @lengthOf(
+a1 ) @calculatedFrom( ""it's"" ) char[ 10 ] body ,  @lengthOf( f32a )
+    rootA
+@calculatedFrom(""{,}"" ), // " ++ [128512]%N ++ runes_of_ascii " emoji
+} 	 ")).
+Eval vm_compute in ("<<<M350>>>" ++ check (runes_of_ascii "packet
+matchKey
+    {	zchar[ 3
+    ]
+// `tick` ""quote"" 'q'
+// packet A { u8 x, }
+A,msg_type
+`a\` , MetaDataX As  , @lengthOf(
+    Z9_ )repeat
+    f32 _x ,
+    @lengthOf(Pad ) uint32 //	t
+Logon
+    , // a // b
+@tag( 4294967296 ) T	`doc` ,
+len  ,
+body { repeat
+    o { match i8i8 as	body{ 65535
+:lengthOf,
+[ ""\n"" ] : i64_ 3
+: asx , [
+""packet""
+,
+    /// triple
+    007	,
+""{,}""  , ""// no comment""
+] : repeatCount ,[ ""// no comment"",
+    7
+    ,	""\" ++ [233]%N ++ runes_of_ascii """, 0123456789 //
+, ""a\""b"" ] : roots
+} ,
+match repeatCount as As
+{ """"
+    /// triple
+    : //	t
+o ,
+    }
+, } , zchar[ 0 ]BodyLength `` ,
+    lengthOf,}, i16 Z9_ , } packet
+    tag { @tag(
+    // `tick` ""quote"" 'q'
+    1 ) repeat float i8i8`" ++ [28040; 24687; 31867; 22411]%N ++ runes_of_ascii "` // `tick` ""quote"" 'q'
+,  @rightPad ( )@lengthOf( _x) @rightPad ( // c
+'0'
+)
+Packet, Foo /// triple
+@lengthOf(
+    u128
+) `doc` ,
+@tag( 007 ) // packet A { u8 x, }
+string repeatCount , o {match leftPad as lengthOf {
+[
+    0123456789  ,
+""1"" ] :
+    x_y_z  , [ """ ++ [128512]%N ++ runes_of_ascii """] : i8i8
+, [// @lengthOf(
+""a\""b"" , ""a	b"" ]
+: Foo , [ ""\" ++ [233]%N ++ runes_of_ascii """ ] : Pad,
+    [ ""a	b"" , 42
+//
+//	t
+, """ ++ [233]%N ++ runes_of_ascii "t" ++ [233]%N ++ runes_of_ascii """ ,	3 ,	""" ++ [28040; 24687]%N ++ runes_of_ascii """,
+    00 ,
+7 ]  : packetx ,
+42
+    //x
+    : falsey,}
+,},}packet body
+{ }")).
+Eval vm_compute in ("<<<M1976>>>" ++ check (runes_of_ascii "options {
+    StringPrefixLenType = u64;
+    ArrayPrefixLenType = u16;
     FixedStringPadChar = ' ';
 }
-packet Trade {
-    zchar[2] Side2,
-    i8 seqNo,
-}
-packet Party {
-    uint32 price,
-}
-packet Ack {
-    @rightPad('\x00') char[6] x,
-    repeat char[4] Flags,
-    zchar[9] f1,
-}
-packet Cancel {
-    Ack,
-}
-packet Heartbeat {
-    string Px,
-    string Acct,
-    f64 Side2,
-    InQty24 {
-        i16 seqNo,
-        repeat i32 Flags,
+
+packet Logon {
+    i32 msgKind,
+    repeat InOrderid65 {
+        u8 pad0,
     },
-}
-root packet Logon {
-    Trade,
-    i64 venue,
-    u32 x,
-    u8 seqNo,
-    match seqNo as Body {
-        [1, 164] : Ack,
-        31 : Cancel,
-        23 : Heartbeat,
-        64 : Party,
-    },
-}
-")).
-Eval vm_compute in ("<<<M362>>>" ++ check (runes_of_ascii "  packet
-    // a // b
-    MetaDataX {
-match _x as roots {
-""`tick`"" :o , [00, // `tick` ""quote"" 'q'
-0123456789
-, 1 ,
-    0123456789,""a\\""  ,
-    ""`tick`""  , 007
-,
-    // " ++ [27880; 37322]%N ++ runes_of_ascii "
-    ""// no comment""]
-: Logon , }	, f32 len @calculatedFrom(
-""{,}"" // c
-) `" ++ [233]%N ++ runes_of_ascii "` , // a // b
-@calculatedFrom( """") @leftPad
-( '\x00') i32 calculatedFrom@lengthOf(
-    Packet)
-    // @lengthOf(
-    `line1
-line2`
-    , @calculatedFrom( ""\" ++ [233]%N ++ runes_of_ascii """	)
-match asx as	As { ""it's"" :_x,""x y""  : calculatedFrom, ""packet"" :
-    Pad
-, } ,  char[] x, char[] matchKey,trueish lengthOf ,@lengthOf(roots	) repeat len // c
-, @lengthOf( crc) repeat
-//
-// " ++ [27880; 37322]%N ++ runes_of_ascii "
-char[]u128 `tab	here`, repeat u64 Header
-    //
-    , }
-")).
-Eval vm_compute in ("<<<M299>>>" ++ check (runes_of_ascii "packet
-As {
-char[ 42	]//
-chars
-@calculatedFrom(
-""a\""b"" ) `it's` ,f32a falsey // trailing space 
-`// not a comment` , // " ++ [128512]%N ++ runes_of_ascii " emoji
-string
-trueish
-`" ++ [28040; 24687; 31867; 22411]%N ++ runes_of_ascii "` ,
-@lengthOf(  metadata )@tag(65535 ) @calculatedFrom( ""`tick`"" ) repeat Logon { x_y_z@lengthOf(lengthOf ),uint32  u
-, i64_ @calculatedFrom( ""CRC32""
-    )
-`a\` , asx @calculatedFrom( """" ) `u8 x,` ,	} ,
-u16
-    _x `` , repeat string_
-//
-// `tick` ""quote"" 'q'
-, options1 f32a , @calculatedFrom(""\n""// a // b
-) Packet @lengthOf( zchar
-    ) , }// `tick` ""quote"" 'q'
-options { // a // b
-} packet a1 { @tag( 0123456789)u8
-    uint8x	`{ , }` ,
-    u32// " ++ [27880; 37322]%N ++ runes_of_ascii "
-x_y_z `say ""hi""`
-, }
-")).
-Eval vm_compute in ("<<<M101>>>" ++ check (runes_of_ascii "
-root
-packet Packet
-{ char[0123456789 ] pack @lengthOf(
-As ) `{ , }`,
-repeat
-    // `tick` ""quote"" 'q'
-    string
-    rootA ,	match
-repeatCount
-    as
-    pack /// triple
-{ ""a\""b""
-    :uint8x// packet A { u8 x, }
-[ ""x y"" ,
-    ""it's""
-    // " ++ [128512]%N ++ runes_of_ascii " emoji
-    ]	: chars
-    ""\" ++ [233]%N ++ runes_of_ascii """
-: //	t
-crc	0123456789 :Packet ,[""1""
-]:	A ,
-    // @lengthOf(
-    } ,// `tick` ""quote"" 'q'
-} options /// triple
-{ }packet pack // trailing space 
-{ i8//x
-MetaDataX ,string float
-`" ++ [28040; 24687; 31867; 22411]%N ++ runes_of_ascii "`,@lengthOf( trueish)
-@calculatedFrom(
-    ""`tick`"" ) f64 lengthOf ,repeat pack	packetx
-// trailing space 
-// packet A { u8 x, }
-, }
-")).
-Eval vm_compute in ("<<<M3718>>>" ++ check (runes_of_ascii "packet Packet {
-    @tag(65535)
+    i8 tag7,
     @leftPad(' ')
-    @tag(255)
-    uint8 len @lengthOf(T),
-    int32 u8x,
-    @lengthOf(rootA)
-    float32 i64_ `u8 x,`,
+    char[12] x,
 }
 
-packet int {
-    repeat i8i8 {
-        lengthOf @lengthOf(int) `line1
-        line2`,
-        string falsey `
-        `,
-        uint16 roots @lengthOf(charz),
+packet Leg {
+    char[] f1,
+    repeat char[5] Px,
+    InQty34 {
+        repeat char[6] Qty,
+        char[7] seqNo,
+        string count,
     },
+    Logon,
 }
 
+packet Party {
+    @leftPad('0')
+    char[10] OrderId,
+    string Tail,
+}
+
+packet Fill {
+    zchar[5] venue,
+    zchar[3] clOrdID,
+    InRef95 {
+        InLastpx25 {
+            u8 pad0,
+        },
+        float64 OrderId,
+        i32 f1,
+        float32 x,
+        char[] seqNo,
+    },
+    repeat string seqNo,
+}
+
+root packet Heartbeat {
+    repeat Leg,
+    u32 seqNo,
+    u16 tag7,
+    u32 Flags @lengthOf(Body),
+    match tag7 as Body {
+        [195, 75] : Party,
+        171 : Fill,
+        78 : Logon,
+        142 : Leg,
+    },
+    u32 Note @calculatedFrom(""CRC32""),
+}")).
+Eval vm_compute in ("<<<M211>>>" ++ check (runes_of_ascii "packet f32a
+    { @calculatedFrom(""1"" )
+_x { string
+/// triple
+//	t
+metadata@calculatedFrom( ""`tick`""	) `// not a comment` ,  match // packet A { u8 x, }
+Foo as  len { 42//
+:Z9_ , //x
+}  , }
+,} packet /// triple
+options1{ @lengthOf(A )roots
+@lengthOf(// packet A { u8 x, }
+msg_type ) `line1
+line2` , int32/// triple
+a1 `it's` , @calculatedFrom( ""packet""
+    )repeat string T , @lengthOf( i64_ ) @calculatedFrom(
+""packet""
+) @tag( 007
+) int16 asx@calculatedFrom(
+""it's""
+    )//	t
+`doc` , repeat i32
+charz, metadata // packet A { u8 x, }
+`// not a comment` , }  packet
+Logon{ }
 options {
-    Foo = ' '
-    len = """ ++ [128512]%N ++ runes_of_ascii """;
-    chars = u64;
-    //x
-    //
-    uint8x = """ ++ [128512]%N ++ runes_of_ascii """;
-    metadata = ' ';
 }
-
-// " ++ [27880; 37322]%N ++ runes_of_ascii "
-MetaData Header {
-    i16 matchKey,
-    Packet Packet `u8 x,`,
-}
-
-packet u128 {
-    uint8x @lengthOf(charz) `u8 x,`,
-}")).
-Eval vm_compute in ("<<<M33>>>" ++ check (runes_of_ascii "root/// triple
-packet int{
-f32 i8i8 , uint8x /// triple
-zchar
-    `// not a comment`// a // b
-,
-    u64 u8x @lengthOf( u ) ,char[] i64_@lengthOf( crc
-    ), @lengthOf( packetx
-    )metadata i64_
-, } packet a1	{ zchar[ 65535
-] float, zchar[ 00
-    //	t
-    ]
-    matchKey
-,
-} options { crc =u64 } MetaData leftPad { trueish string_ ,  uint64 Header
-`" ++ [28040; 24687; 31867; 22411]%N ++ runes_of_ascii "` , }
-    // " ++ [128512]%N ++ runes_of_ascii " emoji
-    MetaData//x
-tag { zchar
-chars
-// " ++ [27880; 37322]%N ++ runes_of_ascii "
-//x
-,  repeatCount  lengthOf`
-` , i16
-u /// triple
-`tab	here` , lengthOf
-a1 ,u16 o
-    , char
-i64_  `two words` , }
-//x
-")).
-Eval vm_compute in ("<<<M3627>>>" ++ check (runes_of_ascii "// top
-options // c0
-{ StringPrefixLenType // c2
-= u16
-    // c4
-; FixedStringPadChar // c6
-= ' ' ; // c9a
-  // c9b
-}
-    // c10
-packet
-    // c11
-Party
-    // c12
-{
-    // c13
-} packet Quote
-    // c16
-{
-    // c17
-repeat Party , // c20
-repeat
-    // c21
-char[ // c22
-2 // c23
-] f1 , } packet Logon // c29a
-  // c29b
-{ } // c31a
-  // c31b
-root // c32a
-  // c32b
-packet // c33a
-  // c33b
-Cancel { // c35a
-  // c35b
-uint16 // c36
-x
-    // c37
-, zchar[ // c39a
-  // c39b
-6 ]
-    // c41
-f1 // c42
-, // c43
-}
-    // c44
-")).
-Eval vm_compute in ("<<<M334>>>" ++ check (runes_of_ascii "
-packet a1
-    /// triple
-    { uint8 As ,// `tick` ""quote"" 'q'
-char[ 1] chars
-    @lengthOf(
-    msg_type )  , repeat char[ 1 ] x_y_z `two words`
-    //x
-    , // c
-@tag(00
+root
+packet tag  { @lengthOf(
+    Logon
 )
-int32
-i8i8
-    , u64 trueish ,
-    // @lengthOf(
-    @lengthOf(
-    body )int16 float @lengthOf( tag )
-    , // " ++ [128512]%N ++ runes_of_ascii " emoji
-x // trailing space 
-@calculatedFrom( ""`tick`""	) ,
-} MetaData x_y_z
-    {	char[
-10
-    ]chars,Z9_ pack`
-`  ,  string As
-, //x
-len
-    int ,A Z9_  , }	options { o = 0123456789 ; _x	= ' '
-;
-}")).
-Eval vm_compute in ("<<<M251>>>" ++ check (runes_of_ascii "options { tag
-=
-false// c
-; charz =
-char[
-    //
-    4294967296 ] ; float = ' '; u =// `tick` ""quote"" 'q'
-zchar[ 255
-    ] x//x
-=
-    ""a\""b""}
-packet leftPad /// triple
-{match
-As as
-    falsey{ [ 10
-    ,0123456789, 007
-,
-""" ++ [28040; 24687]%N ++ runes_of_ascii """
+charz { string stringy`// not a comment`	,
+uint64 int,char
+    i64_ `it's`
+// packet A { u8 x, }
 // a // b
-// trailing space 
-, //	t
-""packet""	, ""`tick`"", ""1"" ] :
-calculatedFrom , } ,@calculatedFrom(
-    ""it's""
-) float64// c
-x_y_z @lengthOf(  leftPad ) , trueish
-@lengthOf(packetx)
-    , }options
-{ string_	=
-    ""a\""b"" ;
-_x = false }
+, } ,
+//	t
+//
+u8
+i64_ , zchar[ 1 ] float
+, } /// triple")).
+Eval vm_compute in ("<<<M1839>>>" ++ check (runes_of_ascii "MetaData	metadata 
+{	// `tick` ""quote"" 'q'
+	msg_type
+    Pad
+,
+int8
+
+calculatedFrom,
+}  MetaData
+
+msg_type {// packet A { u8 x, }
+	} packet// a // b
+	len
+    {_x  ,	}
+	options
+
+    {
+	As	=  
+  // a // b
+// c
+	true 
+;// " ++ [27880; 37322]%N ++ runes_of_ascii "
+
+repeatCount
+
+= '\x00'; uint8x// packet A { u8 x, }
+  = 
+""\" ++ [233]%N ++ runes_of_ascii """
+
+    ;	chars 
+= true ; } 
+        // " ++ [27880; 37322]%N ++ runes_of_ascii "
+
+// `tick` ""quote"" 'q'
+  packet crc{matchKey@lengthOf(
+
+    float
+	), @leftPad	(
+
+    '0' )  match
+
+    i8i8 as
+    x
+    {	[	// " ++ [128512]%N ++ runes_of_ascii " emoji
+
+	65535
+, 
+	// trailing space 
+	10  ,
+    4294967296
+	]  :
+    repeatCount
+,  ""// no comment"" 
+:stringy
+    ,
+
+}
+,
+@calculatedFrom(""a	b"") crc 
+        // " ++ [27880; 37322]%N ++ runes_of_ascii "
+  // trailing space 
+  ,
+/// triple
+	  }
+
 ")).
+Eval vm_compute in ("<<<M269>>>" ++ check (runes_of_ascii "// trailing space 
+packet
+// packet A { u8 x, }
+// packet A { u8 x, }
+o {
+@calculatedFrom(
+""`tick`""
+    //	t
+    )repeat i8 rootA
+, @calculatedFrom( ""`tick`""	)Logon
+body`line1
+line2` , // " ++ [128512]%N ++ runes_of_ascii " emoji
+@lengthOf(crc )@tag( 0
+) repeat
+falsey string_ , @calculatedFrom(
+"""" )
+    lengthOf/// triple
+, u16 calculatedFrom ,
+    i8i8//x
+tag `two words` , @tag( 1)	string rootA`u8 x,`
+,match pack as int { [
+""" ++ [233]%N ++ runes_of_ascii "t" ++ [233]%N ++ runes_of_ascii """
+, ""\" ++ [233]%N ++ runes_of_ascii """	, 10 ,  0,
+4294967296 , ""packet"" ,""" ++ [28040; 24687]%N ++ runes_of_ascii """
+,""" ++ [233]%N ++ runes_of_ascii "t" ++ [233]%N ++ runes_of_ascii """ ] : int
+//x
+// trailing space 
+, 3
+    :zchar , """ ++ [128512]%N ++ runes_of_ascii """
+:
+options1, 00 // c
+:x_y_z , 4294967296 :
+chars , } ,float32 matchKey
+    //x
+    ,
+T
+,}
+")).
+Eval vm_compute in ("<<<M145>>>" ++ check (runes_of_ascii "root //	t
+packet
+BodyLength { zchar[ 10
+]
+u128
+    ,
+uint8 zchar ``
+    , repeat falsey ,float64 chars@calculatedFrom( """ ++ [128512]%N ++ runes_of_ascii """
+) , char[]matchKey, repeat //x
+uint16 matchKey ,
+@calculatedFrom( ""CRC32"" ) char[ 3 ] u `" ++ [28040; 24687; 31867; 22411]%N ++ runes_of_ascii "` , @leftPad ( '0'
+    //	t
+    ) u64  charz @calculatedFrom(""" ++ [128512]%N ++ runes_of_ascii """), }
+root packet chars //
+{} MetaData Z9_{ zchar[ 255 ] _x,int32 f32a , int8
+asx `` ,
+o
+packetx // `tick` ""quote"" 'q'
+, }
+    options
+// trailing space 
+// c
+{	A
+=
+4294967296
+//
+// packet A { u8 x, }
+;
+Foo = ""x y"" ;Foo =  ' ' } //	t")).
 Eval vm_compute in ("<<<M17>>>" ++ check (runes_of_ascii "root  packet
 Pad {
 @tag(65535 ) @lengthOf(
@@ -1451,1192 +533,462 @@ T	@calculatedFrom(""\" ++ [233]%N ++ runes_of_ascii """) // c
 // " ++ [128512]%N ++ runes_of_ascii " emoji
 ) string string_ @calculatedFrom( """ ++ [28040; 24687]%N ++ runes_of_ascii """ ) `a\` , }
 ")).
-Eval vm_compute in ("<<<M554>>>" ++ check (runes_of_ascii "root packet A	{ // packet A { u8 x, }
-char[]  msg_type
-    `two words` , // a // b
-@calculatedFrom( ""abc"" )
-@leftPad
-(
-'\x00'
-) @calculatedFrom(
-    ""x y""
-    ) repeat
-//x
-// @lengthOf(
-int64 chars, zchar[ 1
-] _x@calculatedFrom(	""1""
-    ) `doc` ,
-// c
-//x
-}packet stringy
-{int8
-calculatedFrom  @lengthOf(_x ) `line1
-line2` , @tag( 42 ) char[ 10 ]//
-Logon@lengthOf( roots ) `" ++ [233]%N ++ runes_of_ascii "`// " ++ [128512]%N ++ runes_of_ascii " emoji
-, i32 //
-options1  , i16 x_y_z ,
-    } 	 ")).
-Eval vm_compute in ("<<<M4340>>>" ++ check (runes_of_ascii "options {
-    float = ' '
-    Foo = ""a	b""
-    A = i16;
-    string_ = ""it's""
-}// c
-
-MetaData float {
-    charz falsey,
-    char[] chars,
-    float32 Pad,
-}
-
-MetaData repeatCount {
-    char[65535] Header `" ++ [233]%N ++ runes_of_ascii "`,
-    float32 Pad,
-    u64 len,
-    // `tick` ""quote"" 'q'
-    lengthOf a1 `{ , }`,
-    //x
-}
-
-options {
-    leftPad = zchar[00];
-    charz = 10;
-    options1 = string
-    len = zchar[255];
-    Logon = ""\n"";
-}")).
-Eval vm_compute in ("<<<M1225>>>" ++ check (runes_of_ascii "options {
-options1 =
-    4294967296 ;
-    }
-    root packet crc
-// trailing space 
-// " ++ [27880; 37322]%N ++ runes_of_ascii "
-{@calculatedFrom(
-//
-// `tick` ""quote"" 'q'
-""a\""b"")
-    zchar[
-255
-] u8x
-    // a // b
-    @lengthOf( //
-u8x
-) `u8 x,`// " ++ [128512]%N ++ runes_of_ascii " emoji
-,
-repeat int16
-    x_y_z ,  calculatedFrom@lengthOf(
-    x_y_z )
-    ,
-    //
-    @rightPad ( ' ' ) repeat char[] calculatedFrom ,
-    repeat
-Foo rootA
-`// not a comment` , }
-")).
-Eval vm_compute in ("<<<M3809>>>" ++ check (runes_of_ascii "packet repeatCount {
-    uint64 stringy,
-}
-
-options {
-    crc = '0'
-}//x
-
-packet int {
-    repeat a1 charz,
-}
-
-options {
-    matchKey = """ ++ [28040; 24687]%N ++ runes_of_ascii """;
-    crc = """ ++ [28040; 24687]%N ++ runes_of_ascii """;
-    roots = '\x00';
-    // packet A { u8 x, }
-    //x
-}
-
-packet i8i8 {
-    @calculatedFrom(""abc"")
-    char[] _x `
-    `,/// triple
-    uint8 Packet `crlf
-    line`,
-    string_ `{ , }`,
-    /// triple
-    // " ++ [128512]%N ++ runes_of_ascii " emoji
-}")).
-Eval vm_compute in ("<<<M4276>>>" ++ check (runes_of_ascii "root  
-      // `tick` ""quote"" 'q'
-  //
-      packet
-    T { @rightPad() @calculatedFrom(
-	""it's""
-
-    )  int A ,  match Packet
-as  Packet 
-{
-0123456789
-    :
-	u128  , 	 // c
-    ""a\\"" :	Foo
-    ,1
-:// @lengthOf(
-
-int
-    ,
-[
-        // " ++ [128512]%N ++ runes_of_ascii " emoji
-  7, 
-4294967296, 
-""\n""
-, ""abc"" , ""abc"" ,
-	""\" ++ [233]%N ++ runes_of_ascii """
-]  :
-
-msg_type
-	}
-
-,}  options
-
-{zchar=
-
-    ' ' 
-;  }
-
-")).
-Eval vm_compute in ("<<<M3552>>>" ++ check (runes_of_ascii "// top
-packet // c0
-B // c1a
-  // c1b
-{ // c2
-u8
-    // c3
-a , // c5a
-  // c5b
-string s // c7
-,
-    // c8
-} // c9a
-  // c9b
-root // c10
-packet
-    // c11
-P
-    // c12
-{ // c13a
-  // c13b
-u16 // c14a
-  // c14b
-L // c15
-@lengthOf(
-    // c16
-B ) // c18
-,
-    // c19
-B
-    // c20
-, // c21
-u8
-    // c22
-t // c23a
-  // c23b
-, } // c25a
-  // c25b
-")).
-Eval vm_compute in ("<<<M1110>>>" ++ check (runes_of_ascii "  MetaData	i64_ { // trailing space 
-falsey asx	`u8 x,`  , } MetaData T
-    { }
-root packet msg_type
-{ zchar[ 7	] options1@calculatedFrom(
-    ""a	b"" )
-`// not a comment`
-    , @calculatedFrom( """ ++ [28040; 24687]%N ++ runes_of_ascii """) matchKey @lengthOf(//x
-x_y_z
-), uint64 len
-,
-    @tag(255) u32	A
-// " ++ [128512]%N ++ runes_of_ascii " emoji
-// packet A { u8 x, }
-`` ,
-    // c
-    } // a // b")).
-Eval vm_compute in ("<<<M1951>>>" ++ check (runes_of_ascii "MetaData
-    u { }  options {
-// c
-// @lengthOf(
-float = int8 ;rootA =false ; As =	int16 // `tick` ""quote"" 'q'
-repeatCount
+Eval vm_compute in ("<<<M1896>>>" ++ check (runes_of_ascii "packet Foo {
+    Logon A `a\`,
+    a1 A,
+    @lengthOf(tag)
     // trailing space 
-    =
-    int16 int16
-; u8x =
-    //	t
-    '\x00' ; } options	{
-    repeatCount
-= 0
-u128
-    //
-    = false ; i64_
-// trailing space 
-// `tick` ""quote"" 'q'
-= '0' ; //	t
-}
-")).
-Eval vm_compute in ("<<<M1866>>>" ++ check (runes_of_ascii "MetaData
-    u { { }  options {
-// c
-// @lengthOf(
-float = int8 ;rootA =false ; As =	int16 // `tick` ""quote"" 'q'
-repeatCount
-    // trailing space 
-    =
-    int16
-; u8x =
-    //	t
-    '\x00' ; } options	{
-    repeatCount
-= 0
-u128
-    //
-    = false ; i64_
-// trailing space 
-// `tick` ""quote"" 'q'
-= '0' ; //	t
-}
-")).
-Eval vm_compute in ("<<<M2075>>>" ++ check (runes_of_ascii "MetaData
-    u { }  options {
-// c
-// @lengthOf(
-float = int8 ;rootA =false ; As =	int16 // `tick` ""quote"" 'q'
-repeatCount
-    // trailing space 
-    =
-    int16
-; u8x =
-    //	t
-    '\x00' ; } options	{
-    repeatCount
-= 0
-u128
-    //
-    = false ; caf" ++ [233]%N ++ runes_of_ascii "_1
-// trailing space 
-// `tick` ""quote"" 'q'
-= '0' ; //	t
-}
-")).
-Eval vm_compute in ("<<<M1932>>>" ++ check (runes_of_ascii "MetaData
-    u { }  options {
-// c
-// @lengthOf(
-float = int8 ;rootA =false ; As int16	= // `tick` ""quote"" 'q'
-repeatCount
-    // trailing space 
-    =
-    int16
-; u8x =
-    //	t
-    '\x00' ; } options	{
-    repeatCount
-= 0
-u128
-    //
-    = false ; i64_
-// trailing space 
-// `tick` ""quote"" 'q'
-= '0' ; //	t
-}
-")).
-Eval vm_compute in ("<<<M182>>>" ++ check (runes_of_ascii "packet
-// @lengthOf(
-// " ++ [128512]%N ++ runes_of_ascii " emoji
-Foo { @calculatedFrom( """" )
-@calculatedFrom(""1""
-) @rightPad () int32 As
-@calculatedFrom( """"// a // b
-)
-    `say ""hi""` // c
-, @calculatedFrom( ""\n""
-)
-// trailing space 
-/// triple
-char[// trailing space 
-65535 ] asx ,
-    repeat	int8 trueish `{ , }` ,
-} root packet lengthOf{  }")).
-Eval vm_compute in ("<<<M475>>>" ++ check (runes_of_ascii "options {zchar= ' '
-    ;
-    MetaDataX
-    =
-    zchar[ 255
-] // " ++ [128512]%N ++ runes_of_ascii " emoji
-; } options
-{ options1 = ""1""
-//x
-// " ++ [128512]%N ++ runes_of_ascii " emoji
-; } MetaData u128
-/// triple
-// `tick` ""quote"" 'q'
-{ char[]
-    leftPad , } options //	t
-{ a1 = 255; }  packet
-    As { repeat char[007 ]
-    A , f32a@lengthOf( calculatedFrom
-    ) ,
-    }
-
-")).
-Eval vm_compute in ("<<<M2053>>>" ++ check (runes_of_ascii "MetaData
-    u { }  options {
-// c
-// @lengthOf(
-float = int8 ;rootA =false ; As =	int16 // `tick` ""quote"" 'q'
-repeatCount
-    // trailing space 
-    =
-    int16
-; u8x =
-    //	t
-    '\x00' ; } options	{
-    repeatCount
-= 0
-u128
-    //
-    = false ; i64_
-// trailing space 
-// `tick` ""quote"" 'q'
-= '0' ;")).
-Eval vm_compute in ("<<<M1281>>>" ++ check (runes_of_ascii "MetaData a1	{ //x
-u8 u8x,}
-options
-    // " ++ [128512]%N ++ runes_of_ascii " emoji
-    { float
-='0'/// triple
-;
-    // @lengthOf(
-    pack =
-// packet A { u8 x, }
-// @lengthOf(
-string
-    ; }
-MetaData
-packetx {
-tag
-Foo`
-`,  uint8x asx , uint16
-body	,
-T x ,// packet A { u8 x, }
-float a1 `
-`
-    , matchKey  crc
-, }
-// a // b
-")).
-Eval vm_compute in ("<<<M222>>>" ++ check (runes_of_ascii "options	{ // packet A { u8 x, }
-rootA
-= true
-    ; chars
-=	true // packet A { u8 x, }
-}options	{	lengthOf // @lengthOf(
-= 3
-trueish
-= ' '
-    ;
-    /// triple
-    crc
-// trailing space 
-// @lengthOf(
-=
-    // trailing space 
-    true  ;
-    rootA =""it's""; chars=
-    int32 ;//x
-}
-")).
-Eval vm_compute in ("<<<M3482>>>" ++ check (runes_of_ascii "packet chars // c1a
-  // c1b
-{ // c2a
-  // c2b
-} // c3a
-  // c3b
-packet
-    // c4
-MetaDataX // c5a
-  // c5b
-{ @tag( // c7a
-  // c7b
-42
-    // c8
-) i16 // c10a
-  // c10b
-string_ // c11a
-  // c11b
-, // c12a
-  // c12b
-repeat // c13
-x `say ""hi""` // c15
-, // c16a
-  // c16b
-} ")).
-Eval vm_compute in ("<<<M1523>>>" ++ check (runes_of_ascii "packet
-//	t
-// trailing space 
-_x {
-// packet A { u8 x, }
-// c
-char[
-3
-    ] u8x @lengthOf( @lengthOf(
-u8x ) , @calculatedFrom(""" ++ [128512]%N ++ runes_of_ascii """ // @lengthOf(
-)
-i16	Foo
-@lengthOf(	string_
-    )`doc`	, repeat	i64 metadata , @lengthOf( string_
-) i8 // c
-u  `line1
-line2`	,
-}
-")).
-Eval vm_compute in ("<<<M1500>>>" ++ check (runes_of_ascii "packet
-//	t
-// trailing space 
-_x uint64
-// packet A { u8 x, }
-// c
-char[
-3
-    ] u8x @lengthOf(
-u8x ) , @calculatedFrom(""" ++ [128512]%N ++ runes_of_ascii """ // @lengthOf(
-)
-i16	Foo
-@lengthOf(	string_
-    )`doc`	, repeat	i64 metadata , @lengthOf( string_
-) i8 // c
-u  `line1
-line2`	,
-}
-")).
-Eval vm_compute in ("<<<M1578>>>" ++ check (runes_of_ascii "packet
-//	t
-// trailing space 
-_x {
-// packet A { u8 x, }
-// c
-char[
-3
-    ] u8x @lengthOf(
-u8x ) , @calculatedFrom(""" ++ [128512]%N ++ runes_of_ascii """ // @lengthOf(
-)
-i16	Foo
-@lengthOf(	string_
-    ) )`doc`	, repeat	i64 metadata , @lengthOf( string_
-) i8 // c
-u  `line1
-line2`	,
-}
-")).
-Eval vm_compute in ("<<<M893>>>" ++ check (runes_of_ascii "packet string_ {
-zchar[ 65535 ]
-    stringy `
-`
-,
-    // `tick` ""quote"" 'q'
-    @lengthOf( As) string
-Packet
-    ,
-} packet	Foo {@tag( 255)
-lengthOf@calculatedFrom(
-    ""{,}""
-) ,
-    }root packet MetaDataX {
-@leftPad( '0'  )
-    stringy`{ , }` , }
-")).
-Eval vm_compute in ("<<<M1629>>>" ++ check (runes_of_ascii "packet
-//	t
-// trailing space 
-_x {
-// packet A { u8 x, }
-// c
-char[
-3
-    ] u8x @lengthOf(
-u8x ) , @calculatedFrom(""" ++ [128512]%N ++ runes_of_ascii """ // @lengthOf(
-)
-i16	Foo
-@lengthOf(	string_
-    )`doc`	, repeat	i64 metadata , @lengthOf( string_
-) u // c
-i8  `line1
-line2`	,
-}
-")).
-Eval vm_compute in ("<<<M970>>>" ++ check (runes_of_ascii "root
-packet _x { // `tick` ""quote"" 'q'
-@tag( // " ++ [27880; 37322]%N ++ runes_of_ascii "
-1) zchar @lengthOf( len
-// trailing space 
-//	t
-), } packet metadata {
-uint8x{ a1
-Foo ,
-    }
-    , }options {rootA =""`tick`"" ; Pad // c
-=
-    // a // b
-    65535} packet
-    //	t
-    charz { }
-")).
-Eval vm_compute in ("<<<M4162>>>" ++ check (runes_of_ascii "MetaData u {
+    x_y_z @lengthOf(leftPad) `it's`,
+    @tag(255)
+    match crc as roots {
+        """ ++ [233]%N ++ runes_of_ascii "t" ++ [233]%N ++ runes_of_ascii """ : Foo,
+        [10, 007, """ ++ [233]%N ++ runes_of_ascii "t" ++ [233]%N ++ runes_of_ascii """, ""a	b""] : x_y_z,
+    },// @lengthOf(
 }
 
-options {
-    // c
-    // @lengthOf(
-    float = int8;
-    rootA = false;
-    As = int16// `tick` ""quote"" 'q'
-    repeatCount = int16;
-    u8x = '\x00';
+root packet As {
 }
 
-options {
-    repeatCount = f64
-    u128 = false;
-    i64_ = '0';//	t
-}")).
-Eval vm_compute in ("<<<M3558>>>" ++ check (runes_of_ascii "// top
-options // c0a
-  // c0b
-{ FixedStringPadFromLeft
-    // c2
-=
-    // c3
-true
-    // c4
-; // c5
-}
-    // c6
-root packet // c8a
-  // c8b
-P // c9a
-  // c9b
-{ // c10
-char[ // c11
-4
-    // c12
-] z // c14
-, // c15
-} // c16a
-  // c16b
-")).
-Eval vm_compute in ("<<<M993>>>" ++ check (runes_of_ascii "packet Logon { repeat
-    u64
-a1
-    //
-    `u8 x,`,uint16 string_ @lengthOf( BodyLength )
-, @tag( 7 ) @tag( 7 )@rightPad
-    (' '
-) metadata ,
-    repeat	char[ 007 ] Foo
-// `tick` ""quote"" 'q'
-// trailing space 
-`u8 x,` , }
-
-")).
-Eval vm_compute in ("<<<M237>>>" ++ check (runes_of_ascii "packet Foo //	t
-{ match
-    // a // b
-    i64_ //x
-as
-x_y_z {65535:  BodyLength
-,
-[3, ""CRC32"" ]
-:u
-, 255:
-T ,[ ""x y""]	:leftPad ,0123456789: As ,
-    } ,
-    zchar[	1
-    ]int
-, } packet
-float
-    { uint16
-Packet	,}")).
-Eval vm_compute in ("<<<M95>>>" ++ check (runes_of_ascii "packet len {
-@tag( 255  ) repeat // packet A { u8 x, }
-zchar[ 007] roots
-, leftPad { //	t
-f32 calculatedFrom , f32
-    lengthOf , u32 calculatedFrom , } ,
-x//	t
-x
-    ,} MetaData u128 {
-A i8i8 `two words` ,}
-")).
-Eval vm_compute in ("<<<M4331>>>" ++ check (runes_of_ascii "packet
-    calculatedFrom { @calculatedFrom( ""{,}"" ) 
-  // c
-  @tag(
-65535)
-f32 Packet@lengthOf(o 
-)
-
-    , @calculatedFrom(
-""`tick`"")
-
-uint32 
-MetaDataX
-    @calculatedFrom(	""it's""	)
-    ``, } // a // b
-")).
-Eval vm_compute in ("<<<M1787>>>" ++ check (runes_of_ascii "options { trueish = ""`tick`"" ; string_= """ ++ [233]%N ++ runes_of_ascii "t" ++ [233]%N ++ runes_of_ascii """
-    // c
-    } root
-    packet body { stringy @calculatedFrom(
-""a	b"" ) `line1
-line2` , }
-packet Logon { {
-    @leftPad(
-    ' ' ) //	t
-u16 string_ `u8 x,` ,
-}
-")).
-Eval vm_compute in ("<<<M1683>>>" ++ check (runes_of_ascii "options { = trueish ""`tick`"" ; string_= """ ++ [233]%N ++ runes_of_ascii "t" ++ [233]%N ++ runes_of_ascii """
-    // c
-    } root
-    packet body { stringy @calculatedFrom(
-""a	b"" ) `line1
-line2` , }
-packet Logon {
-    @leftPad(
-    ' ' ) //	t
-u16 string_ `u8 x,` ,
-}
-")).
-Eval vm_compute in ("<<<M1818>>>" ++ check (runes_of_ascii "options { trueish = ""`tick`"" ; string_= """ ++ [233]%N ++ runes_of_ascii "t" ++ [233]%N ++ runes_of_ascii """
-    // c
-    } root
-    packet body { stringy @calculatedFrom(
-""a	b"" ) `line1
-line2` , }
-packet Logon {
-    @leftPad(
-    ' ' ) //	t
-u16 `u8 x,` string_ ,
-}
-")).
-Eval vm_compute in ("<<<M1012>>>" ++ check (runes_of_ascii "options {
-trueish =
-    i32 A= ""\" ++ [233]%N ++ runes_of_ascii """// `tick` ""quote"" 'q'
-int =// `tick` ""quote"" 'q'
-char[ 007  ]//x
-; }
-    MetaData MetaDataX { falsey float ,Logon matchKey
-``
-    ,
-string stringy ,	u64
-    T
-,
-}
-")).
-Eval vm_compute in ("<<<M1816>>>" ++ check (runes_of_ascii "options { trueish = ""`tick`"" ; string_= """ ++ [233]%N ++ runes_of_ascii "t" ++ [233]%N ++ runes_of_ascii """
-    // c
-    } root
-    packet body { stringy @calculatedFrom(
-""a	b"" ) `line1
-line2` , }
-packet Logon {
-    @leftPad(
-    ' ' ) //	t
-u16  `u8 x,` ,
-}
-")).
-Eval vm_compute in ("<<<M3798>>>" ++ check (runes_of_ascii "options {
-    trueish = ""`tick`"";
-    string_ = """ ++ [233]%N ++ runes_of_ascii "t" ++ [233]%N ++ runes_of_ascii """
-    // c
+MetaData calculatedFrom {
+    Z9_ _x ``,
 }
 
-root packet body {
-    stringy @calculatedFrom(""a	b""),
-}
-
-packet Logon {
-    @leftPad(' ')
-    //	t
-    u16 string_ `u8 x,`,
-}")).
-Eval vm_compute in ("<<<M1207>>>" ++ check (runes_of_ascii "//	t
-options
-    {
-    packetx = '\x00' len =	false // packet A { u8 x, }
-As =
-""a\""b"" ;} packet
-BodyLength {string options1  `crlf
-line`
-, // c
-repeatCount @lengthOf( matchKey
-) , }")).
-Eval vm_compute in ("<<<M671>>>" ++ check (runes_of_ascii "
-options {
-f32a= i32
-}options// trailing space 
-{
-    //x
-    roots
-=
-    """" float ='0' ;int =
-true x_y_z=' ' ;MetaDataX=// " ++ [128512]%N ++ runes_of_ascii " emoji
-false
-// packet A { u8 x, }
-// " ++ [128512]%N ++ runes_of_ascii " emoji
-;}
-")).
-Eval vm_compute in ("<<<M4246>>>" ++ check (runes_of_ascii "MetaData msg_type {
-    float32 metadata `line1
-    line2`,
-    uint16 msg_type `// not a comment`,
-    float Pad,
-    float64 trueish `{ , }`,
-    x stringy `tab	here`,
-}")).
-Eval vm_compute in ("<<<M339>>>" ++ check (runes_of_ascii "//
-packet
-int {@leftPad (
-    '\x00' ) MetaDataX @lengthOf( u128 ) ,u
-    a1 `doc` ,
-    @calculatedFrom(
-    ""a\""b"") i16 repeatCount // @lengthOf(
-`tab	here`
-, }")).
-Eval vm_compute in ("<<<M2405>>>" ++ check (runes_of_ascii "// c
-packet packet x { @lengthOf( metadata ) repeat lengthOf
-,a1{
-trueish	,// c
-repeat//	t
-MetaDataX , } , zchar[
-    42	] rootA // `tick` ""quote"" 'q'
-,
-    }
-")).
-Eval vm_compute in ("<<<M1203>>>" ++ check (runes_of_ascii "root
-packet i8i8 { } options {pack
-=
-char[3
-    ]body= ""// no comment"" ;
-// @lengthOf(
-// c
-i8i8
-    // packet A { u8 x, }
-    = i32 //	t
-;	falsey
-=""a\\"" }
-")).
-Eval vm_compute in ("<<<M2392>>>" ++ check (runes_of_ascii "// c
-packet x { @lengthOf( metadata ) repeat lengthOf
-,a1{
-trueish	,// c
-repeat//	t
-MetaDataX , } , zchar[
-    42	] rootA // `tick` ""quote"" 'q'
-,
-    } }
-")).
-Eval vm_compute in ("<<<M2130>>>" ++ check (runes_of_ascii "options{
-_x
-= true
-} options
-{ o	= /// triple
-false
-    ; ; chars
-= ""\n"" } root packet	Pad
-/// triple
-// packet A { u8 x, }
-{	chars
-    // a // b
-    ,}")).
-Eval vm_compute in ("<<<M2186>>>" ++ check (runes_of_ascii "options{
-_x
-= true
-} options
-{ o	= /// triple
-false
-    ; chars
-= ""\n"" } root packet	Pad
-/// triple
-// packet A { u8 x, }
-{	chars
-    // a // b
-    ,as")).
-Eval vm_compute in ("<<<M2111>>>" ++ check (runes_of_ascii "options{
-_x
-= true
-} options
-o {	= /// triple
-false
-    ; chars
-= ""\n"" } root packet	Pad
-/// triple
-// packet A { u8 x, }
-{	chars
-    // a // b
-    ,}")).
-Eval vm_compute in ("<<<M2109>>>" ++ check (runes_of_ascii "options{
-_x
-= true
-} options
- o	= /// triple
-false
-    ; chars
-= ""\n"" } root packet	Pad
-/// triple
-// packet A { u8 x, }
-{	chars
-    // a // b
-    ,}")).
-Eval vm_compute in ("<<<M2401>>>" ++ check (runes_of_ascii "// c
-packet x { @lengthOf( metadata ) repeat lengthOf
-,a1{
-trueish	,// c
-repeat//	t
-MetaDataX , } , }
-    42	] rootA // `tick` ""quote"" 'q'
-,
-    }
-")).
-Eval vm_compute in ("<<<M2159>>>" ++ check (runes_of_ascii "options{
-_x
-= true
-} options
-{ o	= /// triple
-false
-    ; chars
-= ""\n"" } root 	Pad
-/// triple
-// packet A { u8 x, }
-{	chars
-    // a // b
-    ,}")).
-Eval vm_compute in ("<<<M3811>>>" ++ check (runes_of_ascii "
-
-  options
-
-    {
-}options
-{ rootA
-    =
-    zchar[  255  ]; 
-} options  { Packet 
-
-    // `tick` ""quote"" 'q'
-  =0123456789 
-;  a1  =
-""""
-} ")).
-Eval vm_compute in ("<<<M297>>>" ++ check (runes_of_ascii "packet
+MetaData tag {
     // " ++ [27880; 37322]%N ++ runes_of_ascii "
-    Foo
-{ //x
-uint8x
-// " ++ [27880; 37322]%N ++ runes_of_ascii "
-// " ++ [128512]%N ++ runes_of_ascii " emoji
-,match
-len as options1
-// a // b
-// trailing space 
-{ 3 /// triple
-:i64_ , }
-, }
-")).
-Eval vm_compute in ("<<<M3554>>>" ++ check (runes_of_ascii "options {
-    LittleEndian = true;
-}
-packet B {
-    u8 a,
-    string s,
-}
-root packet P {
-    u16 L @lengthOf(B),
-    B,
-    u8 t,
-}
-")).
-Eval vm_compute in ("<<<M4067>>>" ++ check (runes_of_ascii "MetaData packetx {
-    string matchKey,/// triple
-    u8 trueish,
-    // packet A { u8 x, }
-    // `tick` ""quote"" 'q'
-}// a // b")).
-Eval vm_compute in ("<<<M4382>>>" ++ check (runes_of_ascii "packet A {
-    u16 len @lengthOf(body) `a
-        b`,
-    u32 crc @calculatedFrom(""CRC32"") `a
-        b`,
     string body,
+    string options1,
+    i8i8 pack,
 }")).
-Eval vm_compute in ("<<<M3312>>>" ++ check (runes_of_ascii "root // c
-packet matchKey { zchar[ 3 ] pack @calculatedFrom( ""a	b"" ) `doc` , } options { } MetaData A { int8 msg_type , }")).
-Eval vm_compute in ("<<<M3344>>>" ++ check (runes_of_ascii "root packet matchKey { zchar[ 3 ] pack @calculatedFrom( ""a	b"" ) `doc` , } options { } // c
-MetaData A { int8 msg_type , }")).
-Eval vm_compute in ("<<<M1481>>>" ++ check (runes_of_ascii "
-packet
-    falsey { Header@calculatedFrom(""packet""  ) , char[
-    0123456789 ''] packetx
-    , } // `tick` ""quote"" 'q'")).
-Eval vm_compute in ("<<<M1409>>>" ++ check (runes_of_ascii "
-packet
-    falsey Header {@calculatedFrom(""packet""  ) , char[
-    0123456789 ] packetx
-    , } // `tick` ""quote"" 'q'")).
-Eval vm_compute in ("<<<M2991>>>" ++ check (runes_of_ascii "packet A {
-  match k as n {
-    [""a"", ""bb"", ""c c"", ""d"", ""e"", ""f"", ""g"", ""h"", ""i"", ""j"", ""k"", ""l""] : B
-    2 : C
-  },
-}")).
-Eval vm_compute in ("<<<M3831>>>" ++ check (runes_of_ascii "packet uint8x {
-    repeat repeatCount {
-        Packet @calculatedFrom(""packet""),
-    },// packet A { u8 x, }
-}")).
-Eval vm_compute in ("<<<M3697>>>" ++ check (runes_of_ascii "
-packet A
-	{  match
-	k as  n
-{
-
-    [ ""a""  , ""bb""
-	,
-    ""c c"" 
-,	""d"" ,
-	""e"" 
-]
-:  B
-
-    , 2 : C	} 
-, }")).
-Eval vm_compute in ("<<<M2992>>>" ++ check (runes_of_ascii "packet A {
-  match k as n {
-    [1, ""bb"", 007, ""d"", 5, ""f"", 7, ""h"", 9, ""j"", 11, ""l""] : B,
-    2 : C
-  },
-}")).
-Eval vm_compute in ("<<<M2996>>>" ++ check (runes_of_ascii "packet A {
-  match k as n {
-    [1, 22, ""c c"", 4, 5, ""f"", 7, 8, ""i"", 10, 11, ""l""] : B,
-    2 : C
-  },
-}")).
-Eval vm_compute in ("<<<M4212>>>" ++ check (runes_of_ascii "  MetaData float
-	{ float64 charz `
-`	,
-
-    } root	packet chars{ @rightPad ( '0'  )
-Foo ,} 	 // c")).
-Eval vm_compute in ("<<<M645>>>" ++ check (runes_of_ascii "packet lengthOf
-{match u128	as i8i8
+Eval vm_compute in ("<<<M170>>>" ++ check (runes_of_ascii "// " ++ [128512]%N ++ runes_of_ascii " emoji
+packet i64_ { match repeatCount
+as u8x{ // packet A { u8 x, }
+7 : crc , },repeat uint32 roots ,
+} packet options1{ match  MetaDataX as
+chars
+{ ""CRC32""
+    :tag , 00 : lengthOf// a // b
+,	""" ++ [233]%N ++ runes_of_ascii "t" ++ [233]%N ++ runes_of_ascii """ : _x , } , uint16 trueish	,
+char[ 10 ] calculatedFrom	,
+@calculatedFrom( ""a\\""  ) @tag(
+65535 ) @rightPad (	'\x00' ) repeat int32 len , }
+")).
+Eval vm_compute in ("<<<M342>>>" ++ check (runes_of_ascii "root packet roots {  @tag(7 // `tick` ""quote"" 'q'
+) int64
+    A ,}
+//
+//
+packet u128
+    // a // b
+    { msg_type Pad
+`line1
+line2` , }options {crc = ""\" ++ [233]%N ++ runes_of_ascii """
+; }
+    root packet _x
+    {
+@lengthOf( pack// " ++ [27880; 37322]%N ++ runes_of_ascii "
+)
+    i16 MetaDataX	, calculatedFrom
+    { packetx@lengthOf(BodyLength )`{ , }` , } // a // b
+,}")).
+Eval vm_compute in ("<<<M569>>>" ++ check (runes_of_ascii "root packet tag { }  packet MetaDataX{char[007	]
+// c
+/// triple
+asx  @calculatedFrom( ""a\""b""
+) `say ""hi""`// " ++ [27880; 37322]%N ++ runes_of_ascii "
+,  @tag(4294967296 4294967296 )
+    char[1//x
+] packetx @calculatedFrom(""a\""b""
+    ) ,
 // " ++ [128512]%N ++ runes_of_ascii " emoji
+// a // b
+@calculatedFrom(""" ++ [233]%N ++ runes_of_ascii "t" ++ [233]%N ++ runes_of_ascii """  ) repeat pack // " ++ [27880; 37322]%N ++ runes_of_ascii "
+,
+    } // c")).
+Eval vm_compute in ("<<<M576>>>" ++ check (runes_of_ascii "root packet tag { }  packet MetaDataX{char[007	]
 // c
-{""a\\"" :Header
-, } // `tick` ""quote"" 'q'
-, }")).
-Eval vm_compute in ("<<<M3551>>>" ++ check (runes_of_ascii "packet B {
-    u8 a,
-    string s,
-}
-root packet P {
-    u16 L @lengthOf(B),
-    B,
-    u8 t,
+/// triple
+asx  @calculatedFrom( ""a\""b""
+) `say ""hi""`// " ++ [27880; 37322]%N ++ runes_of_ascii "
+,  @tag(4294967296 char[
+    char[1//x
+] packetx @calculatedFrom(""a\""b""
+    ) ,
+// " ++ [128512]%N ++ runes_of_ascii " emoji
+// a // b
+@calculatedFrom(""" ++ [233]%N ++ runes_of_ascii "t" ++ [233]%N ++ runes_of_ascii """  ) repeat pack // " ++ [27880; 37322]%N ++ runes_of_ascii "
+,
+    } // c")).
+Eval vm_compute in ("<<<M167>>>" ++ check (runes_of_ascii "options { roots
+=//x
+int64 }
+// @lengthOf(
+// @lengthOf(
+packet
+    int {
+char  zchar, repeat len {
+    f32a `" ++ [28040; 24687; 31867; 22411]%N ++ runes_of_ascii "`, } ,zchar[
+007 ]As
+    `it's`
+,  zchar[007
+    // a // b
+    ] uint8x @lengthOf(
+    //x
+    Foo)
+    ,
+// packet A { u8 x, }
+// packet A { u8 x, }
 }
 ")).
-Eval vm_compute in ("<<<M2219>>>" ++ check (runes_of_ascii "options
-{ MetaData options { BodyLength= u16 Header= f64 ; u128 =
-    true
-    ; } // a // b")).
-Eval vm_compute in ("<<<M2926>>>" ++ check (runes_of_ascii "packet A {
+Eval vm_compute in ("<<<M540>>>" ++ check (runes_of_ascii "root packet tag { }  packet MetaDataX{char[007	]
+// c
+/// triple
+asx  ""a\""b"" @calculatedFrom(
+) `say ""hi""`// " ++ [27880; 37322]%N ++ runes_of_ascii "
+,  @tag(4294967296 )
+    char[1//x
+] packetx @calculatedFrom(""a\""b""
+    ) ,
+// " ++ [128512]%N ++ runes_of_ascii " emoji
+// a // b
+@calculatedFrom(""" ++ [233]%N ++ runes_of_ascii "t" ++ [233]%N ++ runes_of_ascii """  ) repeat pack // " ++ [27880; 37322]%N ++ runes_of_ascii "
+,
+    } // c")).
+Eval vm_compute in ("<<<M608>>>" ++ check (runes_of_ascii "root packet tag { }  packet MetaDataX{char[007	]
+// c
+/// triple
+asx  @calculatedFrom( ""a\""b""
+) `say ""hi""`// " ++ [27880; 37322]%N ++ runes_of_ascii "
+,  @tag(4294967296 )
+    char[1//x
+] packetx @calculatedFrom(""a\""b""
+     ,
+// " ++ [128512]%N ++ runes_of_ascii " emoji
+// a // b
+@calculatedFrom(""" ++ [233]%N ++ runes_of_ascii "t" ++ [233]%N ++ runes_of_ascii """  ) repeat pack // " ++ [27880; 37322]%N ++ runes_of_ascii "
+,
+    } // c")).
+Eval vm_compute in ("<<<M623>>>" ++ check (runes_of_ascii "root packet tag { }  packet MetaDataX{char[007	]
+// c
+/// triple
+asx  @calculatedFrom( ""a\""b""
+) `say ""hi""`// " ++ [27880; 37322]%N ++ runes_of_ascii "
+,  @tag(4294967296 )
+    char[1//x
+] packetx @calculatedFrom(""a\""b""
+    ) ,
+// " ++ [128512]%N ++ runes_of_ascii " emoji
+// a // b
+@calculatedFrom(  ) repeat pack // " ++ [27880; 37322]%N ++ runes_of_ascii "
+,
+    } // c")).
+Eval vm_compute in ("<<<M642>>>" ++ check (runes_of_ascii "root packet tag { }  packet MetaDataX{char[007	]
+// c
+/// triple
+asx  @calculatedFrom( ""a\""b""
+) `say ""hi""`// " ++ [27880; 37322]%N ++ runes_of_ascii "
+,  @tag(4294967296 )
+    char[1//x
+] packetx @calculatedFrom(""a\""b""
+    ) ,
+// " ++ [128512]%N ++ runes_of_ascii " emoji
+// a // b
+@calculatedFrom(""" ++ [233]%N ++ runes_of_ascii "t" ++ [233]%N ++ runes_of_ascii """  ) repeat")).
+Eval vm_compute in ("<<<M100>>>" ++ check (runes_of_ascii "
+options{ calculatedFrom = false ; } packet i64_
+{
+    body,
+//	t
+//x
+}/// triple
+options { float
+=	true ;// @lengthOf(
+charz =// a // b
+char[65535 ]; u=/// triple
+true ;metadata = ""\" ++ [233]%N ++ runes_of_ascii """  matchKey = '\x00'
+    } // " ++ [27880; 37322]%N)).
+Eval vm_compute in ("<<<M52>>>" ++ check (runes_of_ascii "  root packet _x// " ++ [128512]%N ++ runes_of_ascii " emoji
+{@lengthOf(// c
+Packet ) float32 stringy  @calculatedFrom(
+""x y"" ) `say ""hi""`, match Pad as
+x_y_z{ ""a\\"" : float , 65535 : stringy 007: /// triple
+uint8x ,
+    } , }
+")).
+Eval vm_compute in ("<<<M425>>>" ++ check (runes_of_ascii "packet
+    // `tick` ""quote"" 'q'
+    crc
+// packet A { u8 x, }
+//	t
+{
+u32 a1 ,
+    // trailing space 
+    roots
+charz //
+`two words` `two words`,	}
+    MetaData int {
+} /// triple")).
+Eval vm_compute in ("<<<M2048>>>" ++ check (runes_of_ascii "
+root
+	packet 
+// c1
+  P 
+    // c2
+    {// c3a
+    // c3b
+
+	char  // c4a
+    // c4b
+		c
+
+    ,  // c6
+	u8 // c7a
+    // c7b
+
+  x
+
+,// c9a
+  	// c9b
+}
+        // c10
+")).
+Eval vm_compute in ("<<<M473>>>" ++ check (runes_of_ascii "packet
+    // `tick` ""quote"" 'q'
+    crc
+// packet A { u8 x, }
+//	t
+{
+u32 " ++ [127]%N ++ runes_of_ascii "a1 ,
+    // trailing space 
+    roots
+charz //
+`two words`,	}
+    MetaData int {
+} /// triple")).
+Eval vm_compute in ("<<<M696>>>" ++ check (runes_of_ascii "root packet len // trailing space 
+{
+// " ++ [27880; 37322]%N ++ runes_of_ascii "
+//	t
+char[10
+] metadata	@lengthOf( o ) `crlf
+line`,
+    @rightPad
+' ' (
+) string
+    Header @calculatedFrom( ""a\\""
+    ), }
+")).
+Eval vm_compute in ("<<<M323>>>" ++ check (runes_of_ascii "MetaData As  {
+// " ++ [128512]%N ++ runes_of_ascii " emoji
+// @lengthOf(
+a1 Pad , zchar[ 00 ] // `tick` ""quote"" 'q'
+body`// not a comment` ,
+crc uint8x `// not a comment` ,uint32
+packetx ``
+    ,}
+")).
+Eval vm_compute in ("<<<M1909>>>" ++ check (runes_of_ascii "// top
+MetaData float {
+    // c2
+    float64 charz `
+        `,// c6
+}// c7
+
+root packet chars {
+    // c11
+    @rightPad('0')
+    // c15
+    Foo,// c17
+}// c18")).
+Eval vm_compute in ("<<<M225>>>" ++ check (runes_of_ascii "
+MetaData options1 { zchar[
+    007 ] // `tick` ""quote"" 'q'
+zchar	`a\` , uint32 As ,
+    i8i8
+Foo ,
+// packet A { u8 x, }
+//x
+}
+    packet falsey { }")).
+Eval vm_compute in ("<<<M176>>>" ++ check (runes_of_ascii "
+packet Foo {	} packet MetaDataX
+    {char[]	Logon
+// trailing space 
+//
+,  }root packet MetaDataX { match Z9_ as zchar{
+7 : zchar , } , }")).
+Eval vm_compute in ("<<<M12>>>" ++ check (runes_of_ascii "packet
+    charz //
+{ @rightPad( '0')
+repeat
+    //x
+    Packet//x
+msg_type `" ++ [233]%N ++ runes_of_ascii "`	, } options {repeatCount
+= false falsey  = int64
+}")).
+Eval vm_compute in ("<<<M1222>>>" ++ check (runes_of_ascii "
+// c
+root packet matchKey { zchar[ 3 ] pack @calculatedFrom( ""a	b"" ) `doc` , } options { } MetaData A { int8 msg_type , }")).
+Eval vm_compute in ("<<<M1247>>>" ++ check (runes_of_ascii "root packet matchKey { zchar[ 3 ] pack @calculatedFrom( ""a	b"" ) `doc` , // c
+} options { } MetaData A { int8 msg_type , }")).
+Eval vm_compute in ("<<<M428>>>" ++ check (runes_of_ascii "packet
+    // `tick` ""quote"" 'q'
+    crc
+// packet A { u8 x, }
+//	t
+{
+u32 a1 ,
+    // trailing space 
+    roots
+charz")).
+Eval vm_compute in ("<<<M656>>>" ++ check (runes_of_ascii "root packet tag { }  packet MetaDataX{char[007	]
+// c
+/// triple
+asx  @calculatedFrom( ""a\""b""
+) `say ""hi""`// " ++ [65533; 65533]%N)).
+Eval vm_compute in ("<<<M905>>>" ++ check (runes_of_ascii "packet A {
   match k as n {
-    [""a"", ""bb"", ""c c"", ""d"", ""e"", ""f"", ""g""] : B
+    [""a"", 22, ""c c"", 4, ""e"", 66, ""g"", 8, ""i"", 10, ""k"", 12] : B,
     2 : C
   },
 }")).
-Eval vm_compute in ("<<<M866>>>" ++ check (runes_of_ascii "
-root packet len
-    {char[  1] Foo
-    @calculatedFrom( ""abc""
-),// `tick` ""quote"" 'q'
-}
-")).
-Eval vm_compute in ("<<<M3292>>>" ++ check (runes_of_ascii "MetaData float { float64 charz `
-` , } root packet chars {
-// c
-@rightPad ( '0' ) Foo , }")).
-Eval vm_compute in ("<<<M3503>>>" ++ check (runes_of_ascii "packet chars { } packet MetaDataX { @tag( 42 ) // c
-i16 string_ , repeat x `say ""hi""` , }")).
-Eval vm_compute in ("<<<M2287>>>" ++ check (runes_of_ascii "options
-{ } options { BodyLength= u16 Header= f64 ; u128 =
-    true
-    ; } } // a // b")).
-Eval vm_compute in ("<<<M3212>>>" ++ check (runes_of_ascii "
-// c
-packet metadata { Logon { A `" ++ [28040; 24687; 31867; 22411]%N ++ runes_of_ascii "` , tag o , } , zchar len `// not a comment` , }")).
-Eval vm_compute in ("<<<M2930>>>" ++ check (runes_of_ascii "packet A {
-  match k as n {
-    [""a"", 22, ""c c"", 4, ""e"", 66, ""g""] : B
-    2 : C
-  },
-}")).
-Eval vm_compute in ("<<<M3243>>>" ++ check (runes_of_ascii "packet metadata { Logon { A `" ++ [28040; 24687; 31867; 22411]%N ++ runes_of_ascii "` , tag o , } , zchar len `// not a comment` // c
-, }")).
-Eval vm_compute in ("<<<M3434>>>" ++ check (runes_of_ascii "packet o {
-// c
-repeat Logon uint8x , } options { asx = zchar[ 3 ] stringy = '\x00' }")).
-Eval vm_compute in ("<<<M3899>>>" ++ check (runes_of_ascii "root packet o {
-    @calculatedFrom(""a\""b"")
-    repeat crc,
-    @tag(10)
-    x_y_z,
-}")).
-Eval vm_compute in ("<<<M3393>>>" ++ check (runes_of_ascii "
-// c
-MetaData body { i64 pack `it's` , } packet stringy { int16 calculatedFrom , }")).
-Eval vm_compute in ("<<<M3409>>>" ++ check (runes_of_ascii "MetaData body { i64 pack `it's` , }
-// c
-packet stringy { int16 calculatedFrom , }")).
-Eval vm_compute in ("<<<M4053>>>" ++ check (runes_of_ascii "packet A {
-    match k as n {
-        [1, 22, ""c c""] : B,
-        2 : C,
+Eval vm_compute in ("<<<M107>>>" ++ check (runes_of_ascii "
+packet a1{ match /// triple
+T as pack
+{007 : Header ,} , calculatedFrom	, } MetaData
+options1
+    { }")).
+Eval vm_compute in ("<<<M915>>>" ++ check (runes_of_ascii "packet A {
+    Inner {
+        u8 x `a
+b`,
+        Deep {
+            u8 y `a
+b`,
+        },
     },
 }")).
-Eval vm_compute in ("<<<M2309>>>" ++ check (runes_of_ascii "options
-{ } options { " ++ [21517; 23383]%N ++ runes_of_ascii "= u16 Header= f64 ; u128 =
-    true
-    ; } // a // b")).
-Eval vm_compute in ("<<<M2894>>>" ++ check (runes_of_ascii "packet A {
+Eval vm_compute in ("<<<M1771>>>" ++ check (runes_of_ascii "packet chars {
+}// c
+
+packet MetaDataX {
+    @tag(42)
+    i16 string_,
+    repeat x `say ""hi""`,
+}")).
+Eval vm_compute in ("<<<M1443>>>" ++ check (runes_of_ascii "
+
+  options
+{
+	LittleEndian
+    =	true
+; }	root packet
+
+P
+
+    {repeat  char cs,u8
+x	, 
+}")).
+Eval vm_compute in ("<<<M844>>>" ++ check (runes_of_ascii "packet A {
   match k as n {
-    [""a"", ""bb"", 007, ""d""] : B,
+    [""a"", ""bb"", 007, ""d"", ""e"", 66, ""g""] : B,
     2 : C
   },
 }")).
-Eval vm_compute in ("<<<M2716>>>" ++ check (runes_of_ascii "string @tag( float64 ""packet"" u16 packet { ( f32 } @calculatedFrom( : as")).
-Eval vm_compute in ("<<<M2893>>>" ++ check (runes_of_ascii "packet A {
-  match k as n {
-    [1, 22, ""c c"", 4] : B
-    2 : C
-  },
-}")).
-Eval vm_compute in ("<<<M2727>>>" ++ check (runes_of_ascii "MetaData packet true string `doc` = `it's` char[ MetaData false u16")).
-Eval vm_compute in ("<<<M4358>>>" ++ check (runes_of_ascii "
-options
-{ 
-
-    // " ++ [27880; 37322]%N ++ runes_of_ascii "
-		len= 
-    // @lengthOf(
-	// c
-
-  3
-
-}")).
-Eval vm_compute in ("<<<M669>>>" ++ check (runes_of_ascii "packet calculatedFrom
-{ u32	metadata @lengthOf( Logon
-)
-, }
-")).
-Eval vm_compute in ("<<<M572>>>" ++ check (runes_of_ascii "
-options
-    // a // b
-    {
-    f32a = '0' ;
+Eval vm_compute in ("<<<M1206>>>" ++ check (runes_of_ascii "MetaData float { float64 charz `
+` , } root packet chars { @rightPad ( // c
+'0' ) Foo , }")).
+Eval vm_compute in ("<<<M1417>>>" ++ check (runes_of_ascii "packet chars { } packet MetaDataX { @tag( 42 ) i16
+// c
+string_ , repeat x `say ""hi""` , }")).
+Eval vm_compute in ("<<<M1678>>>" ++ check (runes_of_ascii "packet charz {
+    repeat u16 Foo `{ , }`,
+    //
+    //
 }
-options{}
-")).
-Eval vm_compute in ("<<<M3368>>>" ++ check (runes_of_ascii "packet x
+
+options {
+    crc = """ ++ [28040; 24687]%N ++ runes_of_ascii """;
+}")).
+Eval vm_compute in ("<<<M1147>>>" ++ check (runes_of_ascii "packet metadata { Logon { A `" ++ [28040; 24687; 31867; 22411]%N ++ runes_of_ascii "` , tag o , }
 // c
-{ @rightPad ( ) repeat roots Logon `doc` , }")).
-Eval vm_compute in ("<<<M4255>>>" ++ check (runes_of_ascii "
-packet
-	A {
-	match k	as
-	n
-{  [ 
-1
-
-] : 
-B  2
-
-:
-
-C},
-	}")).
-Eval vm_compute in ("<<<M1139>>>" ++ check (runes_of_ascii "options {
-    // " ++ [27880; 37322]%N ++ runes_of_ascii "
-    len =
-// @lengthOf(
-// c
-3 }
-")).
+, zchar len `// not a comment` , }")).
+Eval vm_compute in ("<<<M1352>>>" ++ check (runes_of_ascii "packet o { repeat Logon uint8x , // c
+} options { asx = zchar[ 3 ] stringy = '\x00' }")).
+Eval vm_compute in ("<<<M861>>>" ++ check (runes_of_ascii "packet A {
+  match k as n {
+    [1, 22, 007, 4, 5, 66, 7, 8, 9] : B
+    2 : C
+  },
+}")).
+Eval vm_compute in ("<<<M1313>>>" ++ check (runes_of_ascii "MetaData body { i64 pack // c
+`it's` , } packet stringy { int16 calculatedFrom , }")).
+Eval vm_compute in ("<<<M1769>>>" ++ check (runes_of_ascii "packet zchar {
+    @lengthOf(Header)
+    f32 string_ `a\`,
+}// packet A { u8 x, }")).
+Eval vm_compute in ("<<<M812>>>" ++ check (runes_of_ascii "packet A {
+  match k as n {
+    [1, ""bb"", 007, ""d"", 5] : B,
+    2 : C
+  },
+}")).
+Eval vm_compute in ("<<<M803>>>" ++ check (runes_of_ascii "packet A {
+  match k as n {
+    [1, 22, ""c c"", 4] : B,
+    2 : C
+  },
+}")).
+Eval vm_compute in ("<<<M791>>>" ++ check (runes_of_ascii "packet A {
+  match k as n {
+    [1, 22, ""c c""] : B
+    2 : C
+  },
+}")).
+Eval vm_compute in ("<<<M235>>>" ++ check (runes_of_ascii "// " ++ [128512]%N ++ runes_of_ascii " emoji
+options {repeatCount = u32 ;tag = ' ' ; } // a // b")).
+Eval vm_compute in ("<<<M1084>>>" ++ check (runes_of_ascii "packet A { // a
+ @tag(1) u8 x, // b
+ // c
+ @tag(2) u8 y, }")).
+Eval vm_compute in ("<<<M1083>>>" ++ check (runes_of_ascii "packet A { @tag(1) // a
+ @leftPad('0') // b
+ char[4] x, }")).
 Eval vm_compute in ("<<<M262>>>" ++ check (runes_of_ascii "MetaData u128 { uint8x msg_type `line1
 line2`	, }")).
-Eval vm_compute in ("<<<M4172>>>" ++ check (runes_of_ascii "root packet u128 {
-    // c
-    chars `it's`,
+Eval vm_compute in ("<<<M963>>>" ++ check (runes_of_ascii "options {
+    a = ""x\
+y"";
+    b = ""x\
+y""
 }")).
-Eval vm_compute in ("<<<M3734>>>" ++ check (runes_of_ascii "packet A {
-    u8 x `a
-        
-        b`,
-}")).
-Eval vm_compute in ("<<<M2730>>>" ++ check (runes_of_ascii "@tag( } ""\n"" MetaData { @calculatedFrom( ]")).
-Eval vm_compute in ("<<<M3190>>>" ++ check (runes_of_ascii "root
+Eval vm_compute in ("<<<M1101>>>" ++ check (runes_of_ascii "root
 // c
 packet u128 { chars `it's` , }")).
-Eval vm_compute in ("<<<M1059>>>" ++ check (runes_of_ascii "MetaData uint8x // trailing space 
-{	}")).
-Eval vm_compute in ("<<<M2617>>>" ++ check (runes_of_ascii "packet A { match k as n { 1 : 2 }, }")).
-Eval vm_compute in ("<<<M3176>>>" ++ check (runes_of_ascii "root // a
- packet // b
- A // c
- { }")).
-Eval vm_compute in ("<<<M2601>>>" ++ check (runes_of_ascii "packet A { B { @tag(1) u8 x, }, }")).
-Eval vm_compute in ("<<<M4197>>>" ++ check (runes_of_ascii "MetaData a1 {
-    u64 packetx,
+Eval vm_compute in ("<<<M1631>>>" ++ check (runes_of_ascii "packet A {
+    u8 x `a
+        b`,
 }")).
-Eval vm_compute in ("<<<M2817>>>" ++ check ([65533; 65533; 65533]%N ++ runes_of_ascii "Et" ++ [65533]%N ++ runes_of_ascii "b" ++ [65533]%N ++ runes_of_ascii "=" ++ [4; 15]%N ++ runes_of_ascii "@" ++ [65533; 65533]%N ++ runes_of_ascii "yr" ++ [65533]%N ++ runes_of_ascii "_	kM" ++ [1260; 65533; 23]%N ++ runes_of_ascii "j_" ++ [65533; 65533; 8; 65533]%N)).
-Eval vm_compute in ("<<<M3161>>>" ++ check (runes_of_ascii "MetaData M {
-}// c
-options {}")).
-Eval vm_compute in ("<<<M2780>>>" ++ check (runes_of_ascii "&.0eM;;i>|Pm^?l:T]h$Bi_(l64")).
-Eval vm_compute in ("<<<M1093>>>" ++ check (runes_of_ascii "options { }
-options { }
-")).
-Eval vm_compute in ("<<<M1136>>>" ++ check (runes_of_ascii "// packet A { u8 x, }
-
-")).
-Eval vm_compute in ("<<<M2564>>>" ++ check (runes_of_ascii "packet A { repeat u8 }")).
-Eval vm_compute in ("<<<M1416>>>" ++ check (runes_of_ascii "
-packet
-    falsey {")).
-Eval vm_compute in ("<<<M2632>>>" ++ check (runes_of_ascii "packet A { } packet")).
-Eval vm_compute in ("<<<M3060>>>" ++ check (runes_of_ascii "packet A {
-}
-// c ")).
-Eval vm_compute in ("<<<M3141>>>" ++ check (runes_of_ascii "// c" ++ [6158]%N ++ runes_of_ascii "
+Eval vm_compute in ("<<<M953>>>" ++ check (runes_of_ascii "root packet A {
+    u8 x `
+x`,
+}")).
+Eval vm_compute in ("<<<M1043>>>" ++ check (runes_of_ascii "packet A {
+ u8 x `d" ++ [8203]%N ++ runes_of_ascii "`, // c" ++ [8203]%N ++ runes_of_ascii "
+}")).
+Eval vm_compute in ("<<<M1164>>>" ++ check (runes_of_ascii "
+// c
+root packet pack { }")).
+Eval vm_compute in ("<<<M1059>>>" ++ check (runes_of_ascii "packet A {
+}// a// b")).
+Eval vm_compute in ("<<<M977>>>" ++ check (runes_of_ascii "// c" ++ [12288]%N ++ runes_of_ascii "
 packet A {
 }")).
-Eval vm_compute in ("<<<M3113>>>" ++ check (runes_of_ascii "packet A {
-}// c" ++ [11]%N)).
-Eval vm_compute in ("<<<M2571>>>" ++ check (runes_of_ascii "packet A { x, }")).
-Eval vm_compute in ("<<<M968>>>" ++ check (runes_of_ascii "options { }
+Eval vm_compute in ("<<<M1078>>>" ++ check (runes_of_ascii "packet A { // a
+ }")).
+Eval vm_compute in ("<<<M233>>>" ++ check (runes_of_ascii "
+options { }
 ")).
-Eval vm_compute in ("<<<M2686>>>" ++ check (runes_of_ascii "// a
-// b
+Eval vm_compute in ("<<<M1701>>>" ++ check (runes_of_ascii "// c" ++ [160]%N ++ runes_of_ascii "
 ")).
-Eval vm_compute in ("<<<M2426>>>" ++ check (runes_of_ascii "char[ ]")).
-Eval vm_compute in ("<<<M2795>>>" ++ check (runes_of_ascii "Hq=" ++ [65533]%N ++ runes_of_ascii "E" ++ [6]%N)).
-Eval vm_compute in ("<<<M3079>>>" ++ check (runes_of_ascii "// c" ++ [5760]%N)).
-Eval vm_compute in ("<<<M2527>>>" ++ check (runes_of_ascii "0x10")).
-Eval vm_compute in ("<<<M2534>>>" ++ check (runes_of_ascii "a_b")).
-Eval vm_compute in ("<<<M2538>>>" ++ check (runes_of_ascii "1_")).
+Eval vm_compute in ("<<<M1945>>>" ++ check (runes_of_ascii "
+")).
